@@ -5,24 +5,47 @@ import Dnp3.Model.OutstationTrace
 "An outstation executes and answers application fragments only from its configured master address
 unless told to accept any master, and it transmits nothing in reply to a broadcast, well-formed or not."
 
+Defect D6 (header-error fragments - unknown function code, UNS on a non-confirm, not FIR/FIN, a response
+function code, fewer than 2 octets - were answered with IIN2.0 even to a foreign master or to a
+broadcast, and aborted a solicited confirm wait) IS REPAIRED: `popRequest` drops every pending
+fragment of a foreign master before parsing, `writeErrorResponse` transmits nothing for a broadcast
+fragment.  The statements below are the FULL ones (no restriction to fragments that parse as a request).
+
 What is proved about the model `Dnp3.Model.Outstation` (every `Db.*` function is opaque here: no
-theorem unfolds one; only `example`s / `*_counterexample` / `*_example` evaluate through the stub):
+theorem unfolds one; only `example`s / `*_example` evaluate through the stub):
 
 1. `foreign_master_silent` and the per-mode equations `foreign_master_silent_{solWait,unsolWait,idle,idle'}`,
-   `rx_dead_silent`: a WELL-FORMED request from a foreign master is dropped without any effect
-   but the frame counter.
-2. The property is FALSE for fragments whose header does not parse as a request (defect D6):
-   `popRequest_headerError`, `runPass_headerError_answered`, `unsolWaitOnFragment_headerError_answered`,
-   `solWaitOnFragment_headerError_aborts`, step level `header_error_answered_{idle,unsolWait}_step`,
-   `header_error_aborts_solWait_step`, `header_error_answered_idle_step_outputs`, and the evaluated
-   `foreign_master_error_answered_counterexample`, `broadcast_error_answered_counterexample`, ...
-3. `broadcast_silent`, `processBroadcast_silent`, `runPass_broadcast`, `unsolWaitOnFragment_broadcast`,
+   `*_frameId_only`, `popRequest_foreign_master_silent`, `rx_dead_silent`: EVERY accepted fragment
+   (`RxAccepted`: passes the address / length filters) from a foreign master - a well-formed request, a
+   header-level error, a single octet, unicast or broadcast - is dropped without any effect but the
+   frame counter; any two of them give the same step result in every mode.
+2. Header-level errors (`HeaderBad`): filtered by master address like requests (`popRequest_headerError`,
+   `popRequest_insufficient` now require an accepted master).  The UNICAST header-error fragment of
+   an accepted master is answered to it with IIN2.0 (C12 `rejection_flagged`): `writeErrorResponse_tx`,
+   `runPass_headerError_answered`, `unsolWaitOnFragment_headerError_answered`, step level
+   `header_error_answered_{idle,unsolWait}_step`, `header_error_answered_idle_step_{outputs,txFrags}`; in
+   the solicited confirm wait it aborts the series: `solWaitOnFragment_{headerError,insufficient}_aborts`,
+   `header_error_aborts_solWait_step{,_outputs}`.  `writeErrorResponse_broadcast`: nothing is written
+   for a broadcast.  Regression examples on the inputs of the former D6 counterexamples:
+   `foreign_master_error_silent_example`, `foreign_master_uns_read_silent_example`,
+   `foreign_master_error_keeps_solWait_example`, `foreign_master_error_silent_unsolWait_example`,
+   `broadcast_error_silent_example`.
+3. Broadcast, first half - parses as a request, function ≠ CONFIRM: `broadcast_silent`,
+   `processBroadcast_silent`, `runPass_broadcast`, `unsolWaitOnFragment_broadcast`,
    `solWaitOnFragment_broadcast`, step level `broadcast_silent_{unsolWait,idle}_step`, `broadcast_solWait_step`:
-   a well-formed broadcast request (function ≠ CONFIRM) produces application callbacks only.
-   CONFIRM to a broadcast address: `broadcast_confirm_idle_ignored`, `broadcast_confirm_solWait_accepted`.
+   application callbacks only.  Second half - `HeaderBad`: `runPass_broadcast_headerError` (the pass
+   continues as after a consumed fragment), `unsolWaitOnFragment_broadcast_headerError` (no output),
+   `solWaitOnFragment_headerBad_aborts` (series aborted as by every broadcast, fragment retained), step
+   level `broadcast_headerError_silent_{idle,unsolWait}_step`, `broadcast_headerError_solWait_step`.
+   CONFIRM to a broadcast address is not a broadcast: `broadcast_confirm_idle_ignored`,
+   `broadcast_confirm_solWait_accepted`.  By `headerBad_or_request` these cover every fragment.
 4. `getResponseIin_after_broadcast`, `getResponseIin_no_broadcast`, `writeSolicited_after_broadcast`:
    IIN1.0 after a broadcast, CON forced after a mandatory-confirm broadcast.
 5./6. step-level forms; outputs of the engine only grow (`preR_runPass`, `preR_dispatch`, `pre_settle`).
+7. `broadcast_never_answered` (+ `_txFrags`, `broadcast_unsolWait_onlyCb`): in EVERY mode, for EVERY
+   accepted broadcast fragment other than a CONFIRM (any source, any octets), no output of the whole
+   step is a solicited response (`.tx` with function octet 0x81), provided no READ is deferred
+   (or the outstation is in the unsolicited confirm wait).
 -/
 namespace Dnp3.Proofs.C07app
 open Dnp3
@@ -38,18 +61,28 @@ def s0 : OState := OState.init cfg0 0
 /-- a well-formed request (READ class 0, `C0 01 3C 01 06`) from a foreign master 99 -/
 def fForeign : Frag := ⟨7, 99, none, [0xC0, 1, 60, 1, 6]⟩
 
-/-! ## 1. foreign master: well-formed requests are dropped silently -/
+/-! ## 1. foreign master: every fragment is dropped silently, whatever its octets -/
 
-theorem popRequest_foreign_master_silent (s : OState) (f : Frag) (ctrl : AppCtrl) (func : Nat)
-    (objects : Except Nat (List ObjHdr)) (raw : List Nat)
-    (hany : s.cfg.anymaster = false) (hsrc : f.src ≠ s.cfg.master)
-    (hp : parseRequest f.data = .request ctrl func objects raw) :
+/-- a fragment whose header does not parse as a request (unknown function code 70, `C3 46`) from the
+    foreign master 99 -/
+def fForeignErr : Frag := ⟨7, 99, none, [0xC3, 70]⟩
+
+theorem popRequest_foreign_master_silent (s : OState) (f : Frag)
+    (hany : s.cfg.anymaster = false) (hsrc : f.src ≠ s.cfg.master) :
     popRequest { s with pending := some f } = ({ s with pending := none }, .nothing) := by
-  simp [popRequest, hp, hany, hsrc]
+  simp [popRequest, hany, hsrc]
 
-example : ∃ ctrl func objects raw, s0.cfg.anymaster = false ∧ fForeign.src ≠ s0.cfg.master ∧
-    parseRequest fForeign.data = .request ctrl func objects raw :=
-  ⟨_, _, _, _, rfl, by decide, rfl⟩
+/-- the hypotheses hold for a well-formed request, for a header-error fragment and for a single octet -/
+example : s0.cfg.anymaster = false ∧ fForeign.src ≠ s0.cfg.master ∧ fForeignErr.src ≠ s0.cfg.master ∧
+    (∃ ctrl func objects raw, parseRequest fForeign.data = .request ctrl func objects raw) ∧
+    parseRequest fForeignErr.data = .headerError 3 ∧ parseRequest [0xC0] = .insufficient :=
+  ⟨rfl, by decide, by decide, ⟨_, _, _, _, rfl⟩, rfl, rfl⟩
+
+/-- the same for a state given by its `pending` field -/
+theorem popRequest_foreign (s : OState) (f : Frag) (hpend : s.pending = some f)
+    (hany : s.cfg.anymaster = false) (hsrc : f.src ≠ s.cfg.master) :
+    popRequest s = ({ s with pending := none }, .nothing) := by
+  simp [popRequest, hpend, hany, hsrc]
 
 /-- the address / length filter of `Outstation.step` on `.rx src dst data`, as a function -/
 def rxDest (env : OEnv) (dst : Nat) : Option (Option Nat) :=
@@ -93,32 +126,28 @@ theorem step_rx_accepted (env : OEnv) (s : OState) (src dst : Nat) (data : List 
   simp only [h1, h2, if_false, rxState]
   rfl
 
-/-- foreign well-formed request while waiting for a solicited confirm: no output, only the frame
-    counter advances (and the fragment is consumed) -/
+/-- fragment of a foreign master (ANY octets) while waiting for a solicited confirm: no output, the
+    wait goes on, only the frame counter advances (and the fragment is consumed) -/
 theorem foreign_master_silent_solWait (env : OEnv) (s : OState) (src dst : Nat) (data : List Nat)
     (b : Option Nat) (series : Series) (deadline : Nat) (cont : SolCont)
-    (ctrl : AppCtrl) (func : Nat) (objects : Except Nat (List ObjHdr)) (raw : List Nat)
     (hmode : s.mode = .solWait series deadline cont)
     (hacc : RxAccepted env src dst data b)
-    (hany : s.cfg.anymaster = false) (hsrc : src ≠ s.cfg.master)
-    (hp : parseRequest data = .request ctrl func objects raw) :
+    (hany : s.cfg.anymaster = false) (hsrc : src ≠ s.cfg.master) :
     Outstation.step env s (.rx src dst data) =
       ({ s with frameId := (s.frameId + 1) % 4294967296, pending := none }, []) := by
   rw [step_rx_accepted env s src dst data b (by simp [hmode]) hacc]
-  simp [dispatch, rxState, hmode, solWaitOnFragment, popRequest, hp, hany, hsrc, settle, finishStep]
+  simp [dispatch, rxState, hmode, solWaitOnFragment, popRequest, hany, hsrc, settle, finishStep]
 
-
+/-- fragment of a foreign master (ANY octets) while waiting for an unsolicited confirm -/
 theorem foreign_master_silent_unsolWait (env : OEnv) (s : OState) (src dst : Nat) (data : List Nat)
     (b : Option Nat) (resp : Resp) (isNull : Bool) (retries : Option Nat) (deadline : Nat)
-    (ctrl : AppCtrl) (func : Nat) (objects : Except Nat (List ObjHdr)) (raw : List Nat)
     (hmode : s.mode = .unsolWait resp isNull retries deadline)
     (hacc : RxAccepted env src dst data b)
-    (hany : s.cfg.anymaster = false) (hsrc : src ≠ s.cfg.master)
-    (hp : parseRequest data = .request ctrl func objects raw) :
+    (hany : s.cfg.anymaster = false) (hsrc : src ≠ s.cfg.master) :
     Outstation.step env s (.rx src dst data) =
       ({ s with frameId := (s.frameId + 1) % 4294967296, pending := none }, []) := by
   rw [step_rx_accepted env s src dst data b (by simp [hmode]) hacc]
-  simp [dispatch, rxState, hmode, unsolWaitOnFragment, popRequest, hp, hany, hsrc, settle, finishStep]
+  simp [dispatch, rxState, hmode, unsolWaitOnFragment, popRequest, hany, hsrc, settle, finishStep]
 
 /-- concrete wait states satisfying the mode hypotheses of the two theorems above -/
 example : ({ s0 with mode := .solWait ⟨4, true⟩ 5000 .fromRequest } : OState).mode = .solWait ⟨4, true⟩ 5000 .fromRequest ∧
@@ -128,33 +157,28 @@ example : (Outstation.start { cfg0 with unsolicited := true } 0).1.cfg.anymaster
       (Outstation.start { cfg0 with unsolicited := true } 0).1.mode = .unsolWait resp isNull retries deadline :=
   ⟨rfl, _, _, _, _, rfl⟩  -- evaluates through the `Db` stub
 
-/-- one idle pass with a foreign well-formed request pending = the pass with nothing pending -/
+/-- one idle pass with a fragment of a foreign master pending = the pass with nothing pending -/
 theorem runPass_foreign (s : OState) (outs : List OOut) (fuel : Nat) (f : Frag)
-    (ctrl : AppCtrl) (func : Nat) (objects : Except Nat (List ObjHdr)) (raw : List Nat)
     (hpend : s.pending = some f)
-    (hany : s.cfg.anymaster = false) (hsrc : f.src ≠ s.cfg.master)
-    (hp : parseRequest f.data = .request ctrl func objects raw) :
+    (hany : s.cfg.anymaster = false) (hsrc : f.src ≠ s.cfg.master) :
     runPass (fuel + 1) (s, outs) =
       afterRequest (runPass fuel) ({ s with notified := false, pending := none }, outs) := by
-  simp [runPass, popRequest, hpend, hp, hany, hsrc]
+  simp [runPass, popRequest, hpend, hany, hsrc]
 
 /-- in idle mode the pass runs, but exactly as if no fragment had arrived: the step equals an
     idle pass from the state whose frame counter advanced and whose reader is empty -/
 theorem foreign_master_silent_idle (env : OEnv) (s : OState) (src dst : Nat) (data : List Nat)
     (b : Option Nat) (next : NextIdle)
-    (ctrl : AppCtrl) (func : Nat) (objects : Except Nat (List ObjHdr)) (raw : List Nat)
     (hmode : s.mode = .idle next)
     (hacc : RxAccepted env src dst data b)
-    (hany : s.cfg.anymaster = false) (hsrc : src ≠ s.cfg.master)
-    (hp : parseRequest data = .request ctrl func objects raw) :
+    (hany : s.cfg.anymaster = false) (hsrc : src ≠ s.cfg.master) :
     Outstation.step env s (.rx src dst data) =
       finishStep (settle 8 (afterRequest (runPass (passFuel - 1))
         ({ s with frameId := (s.frameId + 1) % 4294967296, notified := false, pending := none }, []))) := by
   rw [step_rx_accepted env s src dst data b (by simp [hmode]) hacc]
   have hd : dispatch (rxState s src b data, []) = runPass (63 + 1) (rxState s src b data, []) := by
     simp [dispatch, rxState, hmode, idleWakes, passFuel]
-  rw [hd, runPass_foreign (rxState s src b data) [] 63 ⟨s.frameId, src, b, data⟩ ctrl func objects raw
-    rfl hany hsrc hp]
+  rw [hd, runPass_foreign (rxState s src b data) [] 63 ⟨s.frameId, src, b, data⟩ rfl hany hsrc]
   rfl
 
 /-- ... which is literally what `runPass` does on the same state with no fragment pending -/
@@ -165,15 +189,13 @@ theorem runPass_no_fragment (s : OState) (outs : List OOut) (fuel : Nat) (hp : s
 
 theorem foreign_master_silent_idle' (env : OEnv) (s : OState) (src dst : Nat) (data : List Nat)
     (b : Option Nat) (next : NextIdle)
-    (ctrl : AppCtrl) (func : Nat) (objects : Except Nat (List ObjHdr)) (raw : List Nat)
     (hmode : s.mode = .idle next)
     (hacc : RxAccepted env src dst data b)
-    (hany : s.cfg.anymaster = false) (hsrc : src ≠ s.cfg.master)
-    (hp : parseRequest data = .request ctrl func objects raw) :
+    (hany : s.cfg.anymaster = false) (hsrc : src ≠ s.cfg.master) :
     Outstation.step env s (.rx src dst data) =
       finishStep (settle 8 (runPass passFuel
         ({ s with frameId := (s.frameId + 1) % 4294967296, pending := none }, []))) := by
-  rw [foreign_master_silent_idle env s src dst data b next ctrl func objects raw hmode hacc hany hsrc hp]
+  rw [foreign_master_silent_idle env s src dst data b next hmode hacc hany hsrc]
   show _ = finishStep (settle 8 (runPass (63 + 1) _))
   rw [runPass_no_fragment _ _ _ rfl]
   rfl
@@ -190,60 +212,57 @@ theorem OState.frameId_pending_none (s : OState) (n : Nat) (h : s.pending = none
 
 theorem foreign_master_silent_solWait_frameId_only (env : OEnv) (s : OState) (src dst : Nat) (data : List Nat)
     (b : Option Nat) (series : Series) (deadline : Nat) (cont : SolCont)
-    (ctrl : AppCtrl) (func : Nat) (objects : Except Nat (List ObjHdr)) (raw : List Nat)
     (hmode : s.mode = .solWait series deadline cont)
     (hacc : RxAccepted env src dst data b)
-    (hany : s.cfg.anymaster = false) (hsrc : src ≠ s.cfg.master)
-    (hp : parseRequest data = .request ctrl func objects raw) (hpend : s.pending = none) :
+    (hany : s.cfg.anymaster = false) (hsrc : src ≠ s.cfg.master) (hpend : s.pending = none) :
     Outstation.step env s (.rx src dst data) = ({ s with frameId := (s.frameId + 1) % 4294967296 }, []) := by
-  rw [foreign_master_silent_solWait env s src dst data b series deadline cont ctrl func objects raw
-    hmode hacc hany hsrc hp, OState.frameId_pending_none s _ hpend]
+  rw [foreign_master_silent_solWait env s src dst data b series deadline cont
+    hmode hacc hany hsrc, OState.frameId_pending_none s _ hpend]
 
 theorem foreign_master_silent_unsolWait_frameId_only (env : OEnv) (s : OState) (src dst : Nat) (data : List Nat)
     (b : Option Nat) (resp : Resp) (isNull : Bool) (retries : Option Nat) (deadline : Nat)
-    (ctrl : AppCtrl) (func : Nat) (objects : Except Nat (List ObjHdr)) (raw : List Nat)
     (hmode : s.mode = .unsolWait resp isNull retries deadline)
     (hacc : RxAccepted env src dst data b)
-    (hany : s.cfg.anymaster = false) (hsrc : src ≠ s.cfg.master)
-    (hp : parseRequest data = .request ctrl func objects raw) (hpend : s.pending = none) :
+    (hany : s.cfg.anymaster = false) (hsrc : src ≠ s.cfg.master) (hpend : s.pending = none) :
     Outstation.step env s (.rx src dst data) = ({ s with frameId := (s.frameId + 1) % 4294967296 }, []) := by
-  rw [foreign_master_silent_unsolWait env s src dst data b resp isNull retries deadline ctrl func objects raw
-    hmode hacc hany hsrc hp, OState.frameId_pending_none s _ hpend]
+  rw [foreign_master_silent_unsolWait env s src dst data b resp isNull retries deadline
+    hmode hacc hany hsrc, OState.frameId_pending_none s _ hpend]
 
-/-- MAIN (target 1): in every mode, a well-formed request from a foreign master that passes the
-    address/length filters has no influence beyond advancing the frame counter: any two such
-    fragments (different sources, destinations, contents) give the same step result -/
+/-- MAIN (target 1): in every mode, a fragment from a foreign master that passes the address/length
+    filters has no influence beyond advancing the frame counter, WHATEVER ITS OCTETS (a well-formed
+    request, a fragment with a header-level error, a single octet): any two such fragments
+    (different sources, destinations, contents) give the same step result -/
 theorem foreign_master_silent (env : OEnv) (s : OState)
     (src dst : Nat) (data : List Nat) (b : Option Nat)
-    (ctrl : AppCtrl) (func : Nat) (objects : Except Nat (List ObjHdr)) (raw : List Nat)
     (src' dst' : Nat) (data' : List Nat) (b' : Option Nat)
-    (ctrl' : AppCtrl) (func' : Nat) (objects' : Except Nat (List ObjHdr)) (raw' : List Nat)
     (hany : s.cfg.anymaster = false)
     (hacc : RxAccepted env src dst data b) (hsrc : src ≠ s.cfg.master)
-    (hp : parseRequest data = .request ctrl func objects raw)
-    (hacc' : RxAccepted env src' dst' data' b') (hsrc' : src' ≠ s.cfg.master)
-    (hp' : parseRequest data' = .request ctrl' func' objects' raw') :
+    (hacc' : RxAccepted env src' dst' data' b') (hsrc' : src' ≠ s.cfg.master) :
     Outstation.step env s (.rx src dst data) = Outstation.step env s (.rx src' dst' data') := by
   cases hmode : s.mode with
   | idle next =>
-    rw [foreign_master_silent_idle' env s src dst data b next ctrl func objects raw hmode hacc hany hsrc hp,
-      foreign_master_silent_idle' env s src' dst' data' b' next ctrl' func' objects' raw' hmode hacc' hany hsrc' hp']
+    rw [foreign_master_silent_idle' env s src dst data b next hmode hacc hany hsrc,
+      foreign_master_silent_idle' env s src' dst' data' b' next hmode hacc' hany hsrc']
   | solWait series deadline cont =>
-    rw [foreign_master_silent_solWait env s src dst data b series deadline cont ctrl func objects raw hmode hacc hany hsrc hp,
-      foreign_master_silent_solWait env s src' dst' data' b' series deadline cont ctrl' func' objects' raw' hmode hacc' hany hsrc' hp']
+    rw [foreign_master_silent_solWait env s src dst data b series deadline cont hmode hacc hany hsrc,
+      foreign_master_silent_solWait env s src' dst' data' b' series deadline cont hmode hacc' hany hsrc']
   | unsolWait resp isNull retries deadline =>
-    rw [foreign_master_silent_unsolWait env s src dst data b resp isNull retries deadline ctrl func objects raw hmode hacc hany hsrc hp,
-      foreign_master_silent_unsolWait env s src' dst' data' b' resp isNull retries deadline ctrl' func' objects' raw' hmode hacc' hany hsrc' hp']
+    rw [foreign_master_silent_unsolWait env s src dst data b resp isNull retries deadline hmode hacc hany hsrc,
+      foreign_master_silent_unsolWait env s src' dst' data' b' resp isNull retries deadline hmode hacc' hany hsrc']
   | dead => rw [rx_dead_silent env s _ _ _ hmode, rx_dead_silent env s _ _ _ hmode]
 
 /-- the hypotheses are satisfiable: READ class 0 from master 99 to outstation 1024 (default env) -/
-example : RxAccepted {} 99 1024 [0xC0, 1, 60, 1, 6] none :=
-  ⟨rfl, by decide, by decide, by decide, by decide⟩
-example : ∃ ctrl func objects raw, s0.cfg.anymaster = false ∧ 99 ≠ s0.cfg.master ∧
-    parseRequest [0xC0, 1, 60, 1, 6] = .request ctrl func objects raw := ⟨_, _, _, _, rfl, by decide, rfl⟩
+example : RxAccepted {} 99 1024 [0xC0, 1, 60, 1, 6] none ∧ s0.cfg.anymaster = false ∧ 99 ≠ s0.cfg.master :=
+  ⟨⟨rfl, by decide, by decide, by decide, by decide⟩, rfl, by decide⟩
 /-- a second, different foreign fragment: a broadcast WRITE from master 7 -/
 example : RxAccepted {} 7 0xFFFF [0xC1, 2] (some 0) :=
   ⟨rfl, by decide, by decide, by decide, by decide⟩
+/-- a third and a fourth: unknown function code 70 from master 99; a single octet to the broadcast
+    address from master 7 (neither parses as a request) -/
+example : RxAccepted {} 99 1024 [0xC3, 70] none ∧ parseRequest [0xC3, 70] = .headerError 3 :=
+  ⟨⟨rfl, by decide, by decide, by decide, by decide⟩, rfl⟩
+example : RxAccepted {} 7 0xFFFF [0xC0] (some 0) ∧ parseRequest [0xC0] = .insufficient :=
+  ⟨⟨rfl, by decide, by decide, by decide, by decide⟩, rfl⟩
 /-- concrete instance (idle state after start): no transmission -/
 example : txFrags (Outstation.step {} (Outstation.start cfg0 0).1 (.rx 99 1024 [0xC0, 1, 60, 1, 6])).2 = [] := by
   decide +kernel
@@ -251,19 +270,49 @@ example : txFrags (Outstation.step {} (Outstation.start cfg0 0).1 (.rx 99 1024 [
 example : txFrags (Outstation.step {} (Outstation.start cfg0 0).1 (.rx 1 1024 [0xC0, 1, 60, 1, 6])).2 =
     [(1, [0xC0, 0x81, 0x80, 0])] := by decide +kernel
 
-/-! ## 2. D6: header-error fragments are NOT filtered by master address -/
+/-! ## 2. header-level errors (D6 repaired): filtered by master address like requests, answered with
+IIN2.0 only to the unicast fragment of an accepted master, never to a broadcast -/
 
-/-- `popRequest` never looks at the source (nor at the broadcast marker) of a fragment whose
-    header does not parse as a request -/
+/-- the application header of `data` does not parse as a request: fewer than 2 octets (or a response
+    function code without IIN), or a header-level error (unknown function code, a response function
+    code, FIR/FIN not both set, UNS on a non-confirm) -/
+def HeaderBad (data : List Nat) : Prop :=
+  parseRequest data = .insufficient ∨ ∃ seq, parseRequest data = .headerError seq
+
+/-- every fragment either parses as a request or is `HeaderBad` -/
+theorem headerBad_or_request (data : List Nat) :
+    HeaderBad data ∨ ∃ ctrl func objects raw, parseRequest data = .request ctrl func objects raw := by
+  unfold HeaderBad
+  cases h : parseRequest data with
+  | insufficient => exact .inl (.inl rfl)
+  | headerError seq => exact .inl (.inr ⟨seq, rfl⟩)
+  | request ctrl func objects raw => exact .inr ⟨ctrl, func, objects, raw, rfl⟩
+
+example : HeaderBad [0xC3, 70] ∧ HeaderBad [0xD3, 1] ∧ HeaderBad [0xC0] ∧ HeaderBad [0x43, 1] ∧ HeaderBad [0xC0, 129, 0, 0] :=
+  ⟨.inr ⟨3, rfl⟩, .inr ⟨3, rfl⟩, .inl rfl, .inr ⟨3, rfl⟩, .inr ⟨0, rfl⟩⟩
+
+/-- `popRequest` hands a header-error fragment of the configured master (or of anyone with `anymaster`)
+    on as `.error`, together with its source, whether it was a broadcast, and the sequence number
+    (a foreign master's: `popRequest_foreign_master_silent`) -/
 theorem popRequest_headerError (s : OState) (f : Frag) (seq : Nat)
-    (hpend : s.pending = some f) (hp : parseRequest f.data = .headerError seq) :
-    popRequest s = (s, .error f.src (some seq)) := by
-  simp [popRequest, hpend, hp]
+    (hpend : s.pending = some f) (hsrc : s.cfg.anymaster = true ∨ f.src = s.cfg.master)
+    (hp : parseRequest f.data = .headerError seq) :
+    popRequest s = (s, .error f.src f.broadcast.isSome (some seq)) := by
+  rcases hsrc with h | h <;> simp [popRequest, hpend, hp, h]
 
 theorem popRequest_insufficient (s : OState) (f : Frag)
-    (hpend : s.pending = some f) (hp : parseRequest f.data = .insufficient) :
-    popRequest s = (s, .error f.src none) := by
-  simp [popRequest, hpend, hp]
+    (hpend : s.pending = some f) (hsrc : s.cfg.anymaster = true ∨ f.src = s.cfg.master)
+    (hp : parseRequest f.data = .insufficient) :
+    popRequest s = (s, .error f.src f.broadcast.isSome none) := by
+  rcases hsrc with h | h <;> simp [popRequest, hpend, hp, h]
+
+theorem popRequest_headerBad (s : OState) (f : Frag)
+    (hpend : s.pending = some f) (hsrc : s.cfg.anymaster = true ∨ f.src = s.cfg.master)
+    (hp : HeaderBad f.data) :
+    ∃ seq, popRequest s = (s, .error f.src f.broadcast.isSome seq) := by
+  rcases hp with hp | ⟨seq, hp⟩
+  · exact ⟨none, popRequest_insufficient s f hpend hsrc hp⟩
+  · exact ⟨some seq, popRequest_headerError s f seq hpend hsrc hp⟩
 
 /-- unknown function code => header error carrying the sequence number, whatever follows -/
 theorem parseRequest_unknown_function (c fc : Nat) (objs : List Nat) (h : knownFunction fc = false) :
@@ -280,10 +329,11 @@ def errorBytes (seq : Nat) (con : Bool) (i1 i2 : Nat) : List Nat :=
 theorem writeAt_zero_take (buf hdr : List Nat) : (writeAt buf 0 hdr).take hdr.length = hdr := by
   simp [writeAt]
 
-/-- `write_error_response` transmits to `dst`, whoever that is, a response with IIN2.0 (NO_FUNC_CODE_SUPPORT) -/
+/-- `write_error_response` for a fragment that was NOT a broadcast transmits to `dst` a response with
+    IIN2.0 (NO_FUNC_CODE_SUPPORT) -/
 theorem writeErrorResponse_tx (a : Acc) (dst seq : Nat) (s' : OState) (i1 i2 : Nat)
     (hiin : getResponseIin a.1 = some (s', i1, i2)) :
-    ∃ a', writeErrorResponse a dst (some seq) = some a' ∧
+    ∃ a', writeErrorResponse a dst false (some seq) = some a' ∧
       a'.2 = a.2 ++ [.tx dst (errorBytes seq (decide (s'.lastBroadcast = some 1)) i1 i2)] ∧
       a'.1 = { s' with solBuf := writeAt s'.solBuf 0 (errorBytes seq (decide (s'.lastBroadcast = some 1)) i1 i2) } := by
   simp only [writeErrorResponse, writeSolicited, hiin]
@@ -294,6 +344,17 @@ theorem writeErrorResponse_tx (a : Acc) (dst seq : Nat) (s' : OState) (i1 i2 : N
   · by_cases hb : s'.lastBroadcast = some 1
     · simp [repeatSolicited, emit, hb, errorBytes, emptySolicited, respHeader, iin2NoFunc]
     · simp [repeatSolicited, emit, hb, errorBytes, emptySolicited, respHeader, iin2NoFunc]
+
+/-- `write_error_response` for a broadcast fragment: nothing at all happens (no transmission, no
+    state change, no panic), whatever the sequence number -/
+theorem writeErrorResponse_broadcast (a : Acc) (dst : Nat) (seq : Option Nat) :
+    writeErrorResponse a dst true seq = some a := by
+  simp [writeErrorResponse]
+
+/-- ... and for a fragment too short to carry a sequence number (no reply is possible) -/
+theorem writeErrorResponse_insufficient (a : Acc) (dst : Nat) (bc : Bool) :
+    writeErrorResponse a dst bc none = some a := by
+  cases bc <;> simp [writeErrorResponse]
 
 
 theorem or_mod_two_eq_one (a b : Nat) : (a ||| b) % 2 = 1 ↔ a % 2 = 1 ∨ b % 2 = 1 := by
@@ -307,11 +368,12 @@ theorem errorBytes_shape (seq : Nat) (con : Bool) (i1 i2 : Nat) :
     ∃ c iin2, errorBytes seq con i1 i2 = [c, 0x81, i1, iin2] ∧ iin2 % 2 = 1 :=
   ⟨_, _, rfl, (or_mod_two_eq_one _ _).2 (Or.inl rfl)⟩
 
-/-- D6, idle pass: a pending header-error fragment is answered to ITS source, whatever
-    `cfg.master` / `cfg.anymaster` / `f.broadcast` are -/
+/-- idle pass: a pending UNICAST header-error fragment of an accepted master is answered to its
+    source with IIN2.0 (C12 `rejection_flagged`) -/
 theorem runPass_headerError_answered (s : OState) (outs : List OOut) (fuel : Nat) (f : Frag) (seq : Nat)
     (s' : OState) (i1 i2 : Nat)
-    (hpend : s.pending = some f) (hp : parseRequest f.data = .headerError seq)
+    (hpend : s.pending = some f) (hsrc : s.cfg.anymaster = true ∨ f.src = s.cfg.master)
+    (hb : f.broadcast = none) (hp : parseRequest f.data = .headerError seq)
     (hiin : getResponseIin (onLinkActivity { s with notified := false, pending := none }) = some (s', i1, i2)) :
     runPass (fuel + 1) (s, outs) =
       afterRequest (runPass fuel)
@@ -319,42 +381,48 @@ theorem runPass_headerError_answered (s : OState) (outs : List OOut) (fuel : Nat
          outs ++ [.tx f.src (errorBytes seq (decide (s'.lastBroadcast = some 1)) i1 i2)]) := by
   obtain ⟨a', h1, h2, h3⟩ := writeErrorResponse_tx
     (onLinkActivity { s with notified := false, pending := none }, outs) f.src seq s' i1 i2 hiin
-  have hpop : popRequest { s with notified := false } = ({ s with notified := false }, .error f.src (some seq)) :=
-    popRequest_headerError _ f seq hpend hp
-  simp only [runPass, hpop, h1]
+  have hpop : popRequest { s with notified := false } =
+      ({ s with notified := false }, .error f.src f.broadcast.isSome (some seq)) :=
+    popRequest_headerError _ f seq hpend hsrc hp
+  simp only [runPass, hpop, hb, Option.isSome_none, h1]
   congr 1
   exact Prod.ext h3 h2
 
-/-- header-error fragment `C3 46` (unknown function 70) from foreign master 99, pending in `s0` -/
-def sErr : OState := { s0 with pending := some ⟨0, 99, none, [0xC3, 70]⟩ }
+/-- header-error fragment `C3 46` (unknown function 70) from the configured master 1, pending in `s0` -/
+def sErr : OState := { s0 with pending := some ⟨0, 1, none, [0xC3, 70]⟩ }
 
 /-- the hypotheses of `runPass_headerError_answered` hold for `sErr`
     (the `getResponseIin` value is computed through the `Db` stub) -/
-example : sErr.pending = some ⟨0, 99, none, [0xC3, 70]⟩ ∧ parseRequest [0xC3, 70] = .headerError 3 ∧
-    sErr.cfg.anymaster = false ∧ (99 : Nat) ≠ sErr.cfg.master ∧
+example : sErr.pending = some ⟨0, 1, none, [0xC3, 70]⟩ ∧ parseRequest [0xC3, 70] = .headerError 3 ∧
+    (sErr.cfg.anymaster = true ∨ (1 : Nat) = sErr.cfg.master) ∧
     (getResponseIin (onLinkActivity { sErr with notified := false, pending := none })).isSome = true :=
-  ⟨rfl, rfl, rfl, by decide, rfl⟩
+  ⟨rfl, rfl, .inr rfl, rfl⟩
 
-/-- D6, solicited confirm wait: a header-error fragment from ANY source aborts the response series
-    (`Confirm::NewRequest`), the fragment being retained for the idle pass that follows (which answers it) -/
+/-- solicited confirm wait: a header-error fragment of an accepted master (unicast or broadcast)
+    aborts the response series (`Confirm::NewRequest`), the fragment being retained for the idle pass
+    that follows (which answers it if it was unicast).  A foreign master's does NOT:
+    `foreign_master_silent_solWait` -/
 theorem solWaitOnFragment_headerError_aborts (a : Acc) (series : Series) (deadline : Nat) (cont : SolCont)
     (f : Frag) (seq : Nat)
-    (hpend : a.1.pending = some f) (hp : parseRequest f.data = .headerError seq) :
+    (hpend : a.1.pending = some f) (hsrc : a.1.cfg.anymaster = true ∨ f.src = a.1.cfg.master)
+    (hp : parseRequest f.data = .headerError seq) :
     solWaitOnFragment a series deadline cont =
       abortSeries (emitCb (onLinkActivity a.1, a.2) .solNewRequest) cont := by
-  simp [solWaitOnFragment, popRequest_headerError a.1 f seq hpend hp]
+  simp [solWaitOnFragment, popRequest_headerError a.1 f seq hpend hsrc hp]
 
 theorem solWaitOnFragment_insufficient_aborts (a : Acc) (series : Series) (deadline : Nat) (cont : SolCont)
     (f : Frag)
-    (hpend : a.1.pending = some f) (hp : parseRequest f.data = .insufficient) :
+    (hpend : a.1.pending = some f) (hsrc : a.1.cfg.anymaster = true ∨ f.src = a.1.cfg.master)
+    (hp : parseRequest f.data = .insufficient) :
     solWaitOnFragment a series deadline cont =
       abortSeries (emitCb (onLinkActivity a.1, a.2) .solNewRequest) cont := by
-  simp [solWaitOnFragment, popRequest_insufficient a.1 f hpend hp]
+  simp [solWaitOnFragment, popRequest_insufficient a.1 f hpend hsrc hp]
 
-/-- D6, unsolicited confirm wait: answered as well -/
+/-- unsolicited confirm wait: the unicast header-error fragment of an accepted master is answered as well -/
 theorem unsolWaitOnFragment_headerError_answered (a : Acc) (resp : Resp) (isNull : Bool) (f : Frag) (seq : Nat)
     (s' : OState) (i1 i2 : Nat)
-    (hpend : a.1.pending = some f) (hp : parseRequest f.data = .headerError seq)
+    (hpend : a.1.pending = some f) (hsrc : a.1.cfg.anymaster = true ∨ f.src = a.1.cfg.master)
+    (hb : f.broadcast = none) (hp : parseRequest f.data = .headerError seq)
     (hiin : getResponseIin { a.1 with pending := none, deferred := none } = some (s', i1, i2)) :
     unsolWaitOnFragment a resp isNull =
       .blocked
@@ -362,65 +430,77 @@ theorem unsolWaitOnFragment_headerError_answered (a : Acc) (resp : Resp) (isNull
          a.2 ++ [.tx f.src (errorBytes seq (decide (s'.lastBroadcast = some 1)) i1 i2)]) := by
   obtain ⟨a', h1, h2, h3⟩ := writeErrorResponse_tx
     ({ a.1 with pending := none, deferred := none }, a.2) f.src seq s' i1 i2 hiin
-  simp only [unsolWaitOnFragment, popRequest_headerError a.1 f seq hpend hp, h1]
+  simp only [unsolWaitOnFragment, popRequest_headerError a.1 f seq hpend hsrc hp, hb, Option.isSome_none, h1]
   congr 1
   exact Prod.ext h3 h2
 
 
-/-! ### D6 counterexamples by evaluation (these evaluate through the `Db` stub: empty database) -/
+/-! ### regression examples of the repaired behaviour, by evaluation (the inputs of the former D6
+counterexamples; these evaluate through the `Db` stub: empty database) -/
 
-/-- `foreign_master_error_answered_counterexample`: unknown function code 70 from master 99
-    (configured master 1, `anymaster = false`) is answered to 99 with IIN2.0 -/
-theorem foreign_master_error_answered_counterexample :
+/-- `foreign_master_error_silent_example`: unknown function code 70 from master 99
+    (configured master 1, `anymaster = false`) produces no output at all (the step's output list has
+    length 0; before the repair it was answered to 99 with IIN2.0: `[(99, [C3 81 80 01])]`) -/
+theorem foreign_master_error_silent_example :
     cfg0.anymaster = false ∧ cfg0.master = 1 ∧
-    txFrags (Outstation.step {} (Outstation.start cfg0 0).1 (.rx 99 1024 [0xC3, 70])).2
-      = [(99, [0xC3, 0x81, 0x80, 0x01])] := by decide +kernel
+    (Outstation.step {} (Outstation.start cfg0 0).1 (.rx 99 1024 [0xC3, 70])).2.length = 0 := by decide +kernel
 
 /-- same with the default 2048-octet buffers -/
-example : txFrags (Outstation.step {} (Outstation.start {} 0).1 (.rx 99 1024 [0xC3, 70])).2
-      = [(99, [0xC3, 0x81, 0x80, 0x01])] := by decide +kernel
+example : (Outstation.step {} (Outstation.start {} 0).1 (.rx 99 1024 [0xC3, 70])).2.length = 0 := by decide +kernel
 
-/-- UNS bit on a READ from master 99: answered as well -/
-theorem foreign_master_uns_read_answered_counterexample :
-    txFrags (Outstation.step {} (Outstation.start cfg0 0).1 (.rx 99 1024 [0xD3, 1])).2
-      = [(99, [0xC3, 0x81, 0x80, 0x01])] := by decide +kernel
+/-- UNS bit on a READ from master 99: no output either -/
+theorem foreign_master_uns_read_silent_example :
+    (Outstation.step {} (Outstation.start cfg0 0).1 (.rx 99 1024 [0xD3, 1])).2.length = 0 := by decide +kernel
 
-/-- whereas the well-formed READ from 99 is not -/
+/-- just as the well-formed READ from 99 -/
 example : txFrags (Outstation.step {} (Outstation.start cfg0 0).1 (.rx 99 1024 [0xC3, 1, 60, 1, 6])).2 = [] := by
   decide +kernel
 
+/-- whereas the same octets from the configured master 1 ARE answered with IIN2.0 -/
+example : txFrags (Outstation.step {} (Outstation.start cfg0 0).1 (.rx 1 1024 [0xC3, 70])).2
+      = [(1, [0xC3, 0x81, 0x80, 0x01])] := by decide +kernel
+
 /-- in a solicited confirm wait (reached here by a mandatory-confirm broadcast followed by a
     RECORD_CURRENT_TIME request, whose response then asks for a confirm) the foreign header-error
-    fragment aborts the wait (`solNewRequest`) and is then answered -/
-theorem foreign_master_error_aborts_solWait_counterexample :
+    fragment has no effect: no callback, no transmission, the series is NOT aborted - the confirm of
+    the configured master that follows is still accepted (`solConfirmed 4`) -/
+theorem foreign_master_error_keeps_solWait_example :
     (Outstation.run {} (Outstation.start cfg0 0).1
-        [.rx 1 0xFFFE [0xC3, 24], .rx 1 1024 [0xC4, 24], .rx 99 1024 [0xC3, 70]]).2.map
+        [.rx 1 0xFFFE [0xC3, 24], .rx 1 1024 [0xC4, 24], .rx 99 1024 [0xC3, 70], .rx 1 1024 [0xC4, 0]]).2.map
       (fun o => (cbs o, txFrags o)) =
     [([.broadcast 24 .processed], []),
      ([.solWait 4], [(1, [0xE4, 0x81, 0x81, 0x00])]),
-     ([.solNewRequest], [(99, [0xE3, 0x81, 0x81, 0x01])])] := by decide +kernel
+     ([], []),
+     ([.solConfirmed 4, .beginConfirm, .endConfirm 0 0 0], [])] := by decide +kernel
 
-/-- in an unsolicited confirm wait (null unsolicited after start) -/
-theorem foreign_master_error_answered_unsolWait_counterexample :
+/-- in an unsolicited confirm wait (null unsolicited after start): no output, and the wait goes on
+    (the confirm of the configured master that follows is accepted) -/
+theorem foreign_master_error_silent_unsolWait_example :
     (Outstation.run {} (Outstation.start { cfg0 with unsolicited := true } 0).1
-        [.rx 99 1024 [0xC3, 70]]).2.map txFrags = [[(99, [0xC3, 0x81, 0x80, 0x01])]] := by decide +kernel
+        [.rx 99 1024 [0xC3, 70]]).2.map List.length = [0] ∧
+    (Outstation.run {} (Outstation.start { cfg0 with unsolicited := true } 0).1
+        [.rx 99 1024 [0xC3, 70], .rx 1 1024 [0xD0, 0]]).2.map (fun o => (cbs o, txFrags o)) =
+      [([], []), ([.unsolConfirmed 0], [])] := by
+  refine ⟨?_, ?_⟩ <;> decide +kernel
 
-/-! ## 3. broadcast: nothing is transmitted in reply to a well-formed broadcast request -/
+/-! ## 3. broadcast: nothing is transmitted in reply to a broadcast, well-formed request or not -/
 
 /-- every output in the list is an application callback (no `.tx`, `.txLink`, `.panic`, `.line`) -/
 def OnlyCb (l : List OOut) : Prop := ∀ o ∈ l, ∃ c, o = OOut.cb c
 
 /-- the fields the session's control flow depends on are untouched -/
 def SameCtl (s s' : OState) : Prop :=
-  s'.lastBroadcast = s.lastBroadcast ∧ s'.pending = s.pending ∧ s'.mode = s.mode ∧ s'.cfg = s.cfg
+  s'.lastBroadcast = s.lastBroadcast ∧ s'.pending = s.pending ∧ s'.mode = s.mode ∧ s'.cfg = s.cfg ∧
+    s'.deferred = s.deferred
 
-theorem SameCtl.refl (s : OState) : SameCtl s s := ⟨rfl, rfl, rfl, rfl⟩
+theorem SameCtl.refl (s : OState) : SameCtl s s := ⟨rfl, rfl, rfl, rfl, rfl⟩
 
 theorem SameCtl.trans {s t u : OState} (h1 : SameCtl s t) (h2 : SameCtl t u) : SameCtl s u :=
-  ⟨h2.1.trans h1.1, h2.2.1.trans h1.2.1, h2.2.2.1.trans h1.2.2.1, h2.2.2.2.trans h1.2.2.2⟩
+  ⟨h2.1.trans h1.1, h2.2.1.trans h1.2.1, h2.2.2.1.trans h1.2.2.1, h2.2.2.2.1.trans h1.2.2.2.1,
+    h2.2.2.2.2.trans h1.2.2.2.2⟩
 
 /-- `a'` extends `a` by application callbacks only (nothing transmitted, no panic), and
-    `lastBroadcast`, `pending`, `mode`, `cfg` are unchanged -/
+    `lastBroadcast`, `pending`, `mode`, `cfg`, `deferred` are unchanged -/
 def Quiet (a a' : Acc) : Prop :=
   SameCtl a.1 a'.1 ∧ ∃ l, a'.2 = a.2 ++ l ∧ OnlyCb l
 
@@ -442,7 +522,7 @@ theorem Quiet.state (a : Acc) (s' : OState) (h : SameCtl a.1 s') : Quiet a (s', 
   ⟨h, [], by simp, by simp [OnlyCb]⟩
 
 theorem nextStatus_lastBroadcast (s : OState) : SameCtl s (nextStatus s).1 := by
-  unfold nextStatus; split <;> exact ⟨rfl, rfl, rfl, rfl⟩
+  unfold nextStatus; split <;> exact ⟨rfl, rfl, rfl, rfl, rfl⟩
 
 theorem ctlHeader_go_quiet (kind : Option CtlKind) (fs : Nat) (maxctl : Option Nat) (h : ObjHdr) (isz : Nat)
     (hb : List Nat) (items : List (List Nat × List Nat)) (r : CtlRun) (count : Nat) (hdrOut body : List Nat) :
@@ -530,7 +610,7 @@ theorem handleWriteIin_quiet (a : Acc) (start stop : Nat) (data : List Nat) :
   intro p i
   simp only
   repeat' split
-  all_goals first | exact Quiet.refl _ | exact Quiet.trans (Quiet.state _ _ ⟨rfl, rfl, rfl, rfl⟩) (Quiet.emitCb _ _)
+  all_goals first | exact Quiet.refl _ | exact Quiet.trans (Quiet.state _ _ ⟨rfl, rfl, rfl, rfl, rfl⟩) (Quiet.emitCb _ _)
 
 theorem handleWriteHeader_quiet (a : Acc) (h : ObjHdr) : Quiet a (handleWriteHeader a h).1 := by
   unfold handleWriteHeader
@@ -540,7 +620,7 @@ theorem handleWriteHeader_quiet (a : Acc) (h : ObjHdr) : Quiet a (handleWriteHea
     | exact Quiet.refl _
     | exact handleWriteIin_quiet ..
     | exact Quiet.emitCb _ _
-    | exact Quiet.trans (Quiet.state a _ ⟨rfl, rfl, rfl, rfl⟩) (Quiet.emitCb _ _)
+    | exact Quiet.trans (Quiet.state a _ ⟨rfl, rfl, rfl, rfl, rfl⟩) (Quiet.emitCb _ _)
 
 theorem handleWrite_quiet (a : Acc) (seq : Nat) (hs : List ObjHdr) : Quiet a (handleWrite a seq hs).1 := by
   unfold handleWrite
@@ -569,7 +649,7 @@ theorem handleEnableDisable_quiet (a : Acc) (en : Bool) (seq : Nat) (hs : List O
     intro p h
     simp only
     repeat' split
-    all_goals exact ⟨rfl, rfl, rfl, rfl⟩
+    all_goals exact ⟨rfl, rfl, rfl, rfl, rfl⟩
 
 /-- output of `process_broadcast`: callbacks only, ending with the `broadcast` callback;
     `lastBroadcast` records the confirm mode -/
@@ -577,16 +657,16 @@ theorem processBroadcast_silent (a : Acc) (f : Frag) (m : Nat) (ctrl : AppCtrl) 
     (objects : Except Nat (List ObjHdr)) (raw : List Nat) (a' : Acc)
     (h : processBroadcast a f m ctrl func objects raw = some a') :
     a'.1.lastBroadcast = some m ∧
-    (a'.1.pending = a.1.pending ∧ a'.1.mode = a.1.mode ∧ a'.1.cfg = a.1.cfg) ∧
+    (a'.1.pending = a.1.pending ∧ a'.1.mode = a.1.mode ∧ a'.1.cfg = a.1.cfg ∧ a'.1.deferred = a.1.deferred) ∧
     ∃ l action, a'.2 = a.2 ++ l ++ [.cb (.broadcast func action)] ∧ OnlyCb l := by
   have key : ∀ (b : Acc) (action : BAction), Quiet ({ a.1 with lastBroadcast := some m }, a.2) b →
       some (emitCb b (.broadcast func action)) = some a' →
       a'.1.lastBroadcast = some m ∧
-      (a'.1.pending = a.1.pending ∧ a'.1.mode = a.1.mode ∧ a'.1.cfg = a.1.cfg) ∧
+      (a'.1.pending = a.1.pending ∧ a'.1.mode = a.1.mode ∧ a'.1.cfg = a.1.cfg ∧ a'.1.deferred = a.1.deferred) ∧
       ∃ l action', a'.2 = a.2 ++ l ++ [.cb (.broadcast func action')] ∧ OnlyCb l := by
-    intro b action ⟨⟨h1, h1p, h1m, h1c⟩, l, h2, h3⟩ he
+    intro b action ⟨⟨h1, h1p, h1m, h1c, h1d⟩, l, h2, h3⟩ he
     cases he
-    exact ⟨h1, ⟨h1p, h1m, h1c⟩, l, action, by simp [emitCb, emit, h2], h3⟩
+    exact ⟨h1, ⟨h1p, h1m, h1c, h1d⟩, l, action, by simp [emitCb, emit, h2], h3⟩
   unfold processBroadcast at h
   simp only at h
   repeat' split at h
@@ -595,9 +675,9 @@ theorem processBroadcast_silent (a : Acc) (f : Frag) (m : Nat) (ctrl : AppCtrl) 
     | exact key _ _ (handleWrite_quiet ..) h
     | exact key _ _ (handleFreeze_quiet ..) h
     | exact key _ _ (handleEnableDisable_quiet ..) h
-    | exact key _ _ (Quiet.state _ _ ⟨rfl, rfl, rfl, rfl⟩) h
+    | exact key _ _ (Quiet.state _ _ ⟨rfl, rfl, rfl, rfl, rfl⟩) h
     | (rename_i heq; exact key _ _ (handleControls_6_quiet _ _ _ _ _ _ _ heq).1 h)
-    | (refine key _ _ ?_ h; exact ⟨⟨rfl, rfl, rfl, rfl⟩, [], by simp, by simp [OnlyCb]⟩)
+    | (refine key _ _ ?_ h; exact ⟨⟨rfl, rfl, rfl, rfl, rfl⟩, [], by simp, by simp [OnlyCb]⟩)
     | (simp at h)
 
 theorem txFrags_append (l l' : List OOut) : txFrags (l ++ l') = txFrags l ++ txFrags l' := by
@@ -727,12 +807,14 @@ theorem unsolWaitOnFragment_broadcast (a : Acc) (resp : Resp) (isNull : Bool) (f
   obtain ⟨a', h⟩ := processBroadcast_isSome
     ({ (onLinkActivity { a.1 with pending := none }) with deferred := none }, a.2) f m ctrl func objects raw
   obtain ⟨h1, ⟨hp1, hp2, -⟩, l, action, h2, h3⟩ := processBroadcast_silent _ f m ctrl func objects raw a' h
-  refine ⟨a', ?_, h1, hp1, hp2, ⟨l, action, h2, h3⟩, ?_⟩
+  -- `BroadcastReceived`: the unsolicited response in flight no longer counts as having reported the broadcast
+  refine ⟨({ a'.1 with unsolReported := false }, a'.2), ?_, h1, hp1, hp2, ⟨l, action, h2, h3⟩, ?_⟩
   · have hpop := popRequest_accepted a.1 f ctrl func objects raw hpend hp hsrc
     simp only [unsolWaitOnFragment, hpop]
     rw [classify_broadcast _ f ctrl func objects m hb hf]
     simp only [h]
-  · rw [h2, List.append_assoc, txFrags_append_onlyCb]
+  · show txFrags a'.2 = _
+    rw [h2, List.append_assoc, txFrags_append_onlyCb]
     intro o ho
     rcases List.mem_append.1 ho with h | h
     · exact h3 o h
@@ -754,6 +836,55 @@ theorem solWaitOnFragment_broadcast (a : Acc) (series : Series) (deadline : Nat)
   refine ⟨?_, hpend⟩
   simp only [solWaitOnFragment, hpop]
   rw [classify_broadcast _ f ctrl func objects m hb hf]
+
+/-! ### the other half: broadcast fragments whose header does NOT parse as a request (`HeaderBad`)
+
+Together with `runPass_broadcast` / `unsolWaitOnFragment_broadcast` / `solWaitOnFragment_broadcast`
+(parses as a request, function ≠ CONFIRM) and `broadcast_confirm_*` below (function CONFIRM) this
+covers every accepted broadcast fragment (`headerBad_or_request`). -/
+
+/-- idle pass on a broadcast fragment with a header-level error: `writeErrorResponse` transmits
+    nothing; the pass continues exactly as after a consumed fragment - like `runPass_foreign` /
+    `runPass_no_fragment`, but the link activity is recorded (the fragment was addressed to us by
+    an accepted master) -/
+theorem runPass_broadcast_headerError (s : OState) (outs : List OOut) (fuel : Nat) (f : Frag) (m : Nat)
+    (hpend : s.pending = some f) (hsrc : s.cfg.anymaster = true ∨ f.src = s.cfg.master)
+    (hb : f.broadcast = some m) (hp : HeaderBad f.data) :
+    runPass (fuel + 1) (s, outs) =
+      afterRequest (runPass fuel) (onLinkActivity { s with notified := false, pending := none }, outs) := by
+  obtain ⟨seq, hpop⟩ := popRequest_headerBad { s with notified := false } f hpend hsrc hp
+  simp only [runPass, hpop, hb, Option.isSome_some, writeErrorResponse_broadcast]
+
+/-- unsolicited confirm wait, broadcast fragment with a header-level error: consumed; no transmission,
+    no callback, the wait goes on; the only state change besides `pending := none` is that a deferred
+    READ is dropped (as for every fragment other than a confirm handled in this wait) -/
+theorem unsolWaitOnFragment_broadcast_headerError (a : Acc) (resp : Resp) (isNull : Bool) (f : Frag) (m : Nat)
+    (hpend : a.1.pending = some f) (hsrc : a.1.cfg.anymaster = true ∨ f.src = a.1.cfg.master)
+    (hb : f.broadcast = some m) (hp : HeaderBad f.data) :
+    unsolWaitOnFragment a resp isNull = .blocked ({ a.1 with pending := none, deferred := none }, a.2) := by
+  obtain ⟨seq, hpop⟩ := popRequest_headerBad a.1 f hpend hsrc hp
+  simp only [unsolWaitOnFragment, hpop, hb, Option.isSome_some, writeErrorResponse_broadcast]
+
+/-- solicited confirm wait, fragment of an accepted master with a header-level error - in particular a
+    BROADCAST one (there is no hypothesis on `f.broadcast`): as for every well-formed broadcast
+    (`solWaitOnFragment_broadcast`) and every new request the response series is aborted
+    (`Confirm::NewRequest`: callback `solNewRequest`, `database.reset()`); this is not a transmission
+    in reply.  The fragment is retained (`pending` is still `some f`) and is then processed from idle,
+    i.e. for a broadcast by `runPass_broadcast_headerError`, silently -/
+theorem solWaitOnFragment_headerBad_aborts (a : Acc) (series : Series) (deadline : Nat) (cont : SolCont)
+    (f : Frag)
+    (hpend : a.1.pending = some f) (hsrc : a.1.cfg.anymaster = true ∨ f.src = a.1.cfg.master)
+    (hp : HeaderBad f.data) :
+    solWaitOnFragment a series deadline cont =
+      abortSeries (emitCb (onLinkActivity a.1, a.2) .solNewRequest) cont ∧
+    (emitCb (onLinkActivity a.1, a.2) .solNewRequest).1.pending = some f := by
+  obtain ⟨seq, hpop⟩ := popRequest_headerBad a.1 f hpend hsrc hp
+  refine ⟨?_, hpend⟩
+  simp only [solWaitOnFragment, hpop]
+
+/-- hypotheses: broadcast (0xFFFF) fragment `C3 46` of the configured master 1, pending in `s0` -/
+example : ({ s0 with pending := some ⟨0, 1, some 0, [0xC3, 70]⟩ } : OState).pending = some ⟨0, 1, some 0, [0xC3, 70]⟩ ∧
+    (s0.cfg.anymaster = true ∨ (1 : Nat) = s0.cfg.master) ∧ HeaderBad [0xC3, 70] := ⟨rfl, .inr rfl, .inr ⟨3, rfl⟩⟩
 
 /-! ### CONFIRM (function 0) sent to a broadcast address: it is NOT treated as a broadcast -/
 
@@ -924,24 +1055,29 @@ theorem broadcast_confirm_solWait_example :
      ([.solWait 4], [(1, [0xE4, 0x81, 0x81, 0x00])]),
      ([.solConfirmed 4, .beginConfirm, .endConfirm 0 0 0], [])] := by decide +kernel
 
-/-- `broadcast_error_answered_counterexample` (D6, second half): a broadcast fragment (dst 0xFFFF)
-    with unknown function code 70 IS answered (`C3 81 80 01` to its source); general statement:
-    `popRequest_headerError` + `runPass_headerError_answered` / `unsolWaitOnFragment_headerError_answered`
-    (neither has any hypothesis on `f.broadcast`) -/
-theorem broadcast_error_answered_counterexample :
-    txFrags (Outstation.step {} (Outstation.start cfg0 0).1 (.rx 1 0xFFFF [0xC3, 70])).2
-      = [(1, [0xC3, 0x81, 0x80, 0x01])] ∧
+/-- `broadcast_error_silent_example` (D6 repaired, second half): a broadcast fragment (dst 0xFFFF)
+    with unknown function code 70 is NOT answered and produces no output at all (before the repair:
+    `C3 81 80 01` to its source); general statements: `runPass_broadcast_headerError`,
+    `unsolWaitOnFragment_broadcast_headerError`, `solWaitOnFragment_headerBad_aborts`,
+    step level `broadcast_headerError_silent_{idle,unsolWait}_step`, `broadcast_never_answered` -/
+theorem broadcast_error_silent_example :
+    (Outstation.step {} (Outstation.start cfg0 0).1 (.rx 1 0xFFFF [0xC3, 70])).2.length = 0 ∧
     -- also when broadcast support is disabled by configuration
-    txFrags (Outstation.step {} (Outstation.start { cfg0 with broadcast := false } 0).1 (.rx 1 0xFFFF [0xC3, 70])).2
-      = [(1, [0xC3, 0x81, 0x80, 0x01])] ∧
+    (Outstation.step {} (Outstation.start { cfg0 with broadcast := false } 0).1 (.rx 1 0xFFFF [0xC3, 70])).2.length = 0 ∧
     -- and from a foreign master to the broadcast address, in the unsolicited confirm wait
     (Outstation.run {} (Outstation.start { cfg0 with unsolicited := true } 0).1
-        [.rx 99 0xFFFF [0xC3, 70]]).2.map txFrags = [[(99, [0xC3, 0x81, 0x80, 0x01])]] := by
-  refine ⟨?_, ?_, ?_⟩ <;> decide +kernel
-
-/-- the general theorem instantiated: hypotheses for a broadcast header-error fragment -/
-example : ({ s0 with pending := some ⟨0, 1, some 0, [0xC3, 70]⟩ } : OState).pending = some ⟨0, 1, some 0, [0xC3, 70]⟩ ∧
-    parseRequest [0xC3, 70] = .headerError 3 := ⟨rfl, rfl⟩
+        [.rx 99 0xFFFF [0xC3, 70]]).2.map List.length = [0] ∧
+    -- from the configured master to the broadcast address, in the unsolicited confirm wait
+    (Outstation.run {} (Outstation.start { cfg0 with unsolicited := true } 0).1
+        [.rx 1 0xFFFF [0xC3, 70]]).2.map List.length = [0] ∧
+    -- in the solicited confirm wait the series is aborted (as by every broadcast), nothing is transmitted
+    (Outstation.run {} (Outstation.start cfg0 0).1
+        [.rx 1 0xFFFE [0xC3, 24], .rx 1 1024 [0xC4, 24], .rx 1 0xFFFF [0xC3, 70]]).2.map
+      (fun o => (cbs o, txFrags o)) =
+    [([.broadcast 24 .processed], []),
+     ([.solWait 4], [(1, [0xE4, 0x81, 0x81, 0x00])]),
+     ([.solNewRequest], [])] := by
+  refine ⟨?_, ?_, ?_, ?_, ?_⟩ <;> decide +kernel
 
 /-! ## 5. step-level forms of parts 2 and 3 -/
 
@@ -1038,33 +1174,87 @@ theorem broadcast_solWait_step (env : OEnv) (s : OState) (src dst : Nat) (data :
       ⟨s.frameId, src, some m, data⟩ ctrl func objects raw m rfl hp hsrc rfl hf).1]
   rfl
 
-/-- D6, step level, unsolicited confirm wait: ANY accepted fragment (any source `< 0xFFF0`, unicast
-    or broadcast destination) whose header does not parse as a request is answered; the step's
-    only output is the transmission to `src` -/
+/-- BROADCAST with a header-level error, step level, unsolicited confirm wait: the step has NO output;
+    the fragment is consumed and a deferred READ dropped, nothing else changes -/
+theorem broadcast_headerError_silent_unsolWait_step (env : OEnv) (s : OState) (src dst : Nat) (data : List Nat)
+    (m : Nat) (resp : Resp) (isNull : Bool) (retries : Option Nat) (deadline : Nat)
+    (hmode : s.mode = .unsolWait resp isNull retries deadline)
+    (hacc : RxAccepted env src dst data (some m))
+    (hsrc : s.cfg.anymaster = true ∨ src = s.cfg.master)
+    (hp : HeaderBad data) :
+    Outstation.step env s (.rx src dst data) =
+      ({ s with frameId := (s.frameId + 1) % 4294967296, pending := none, deferred := none }, []) := by
+  rw [step_rx_accepted env s src dst data (some m) (by simp [hmode]) hacc,
+    dispatch_unsolWait_rx s src (some m) data resp isNull retries deadline hmode,
+    unsolWaitOnFragment_broadcast_headerError (rxState s src (some m) data, []) resp isNull
+      ⟨s.frameId, src, some m, data⟩ m rfl hsrc rfl hp,
+    settle_blocked_no_pending _ _ rfl]
+  rfl
+
+/-- BROADCAST with a header-level error, step level, idle: nothing is written for the fragment; the step
+    is the idle pass that follows a consumed fragment (cf. `foreign_master_silent_idle`; here the link
+    activity is recorded) -/
+theorem broadcast_headerError_silent_idle_step (env : OEnv) (s : OState) (src dst : Nat) (data : List Nat)
+    (m : Nat) (next : NextIdle)
+    (hmode : s.mode = .idle next)
+    (hacc : RxAccepted env src dst data (some m))
+    (hsrc : s.cfg.anymaster = true ∨ src = s.cfg.master)
+    (hp : HeaderBad data) :
+    Outstation.step env s (.rx src dst data) =
+      finishStep (settle 8 (afterRequest (runPass (passFuel - 1))
+        (onLinkActivity { s with frameId := (s.frameId + 1) % 4294967296, notified := false, pending := none }, []))) := by
+  rw [step_rx_accepted env s src dst data (some m) (by simp [hmode]) hacc,
+    dispatch_idle_rx s src (some m) data next hmode,
+    runPass_broadcast_headerError (rxState s src (some m) data) [] 63 ⟨s.frameId, src, some m, data⟩ m
+      rfl hsrc rfl hp]
+  rfl
+
+/-- BROADCAST with a header-level error, step level, solicited confirm wait: exactly as for a
+    well-formed broadcast (`broadcast_solWait_step`) the series is aborted, then the retained fragment
+    is processed by the idle pass (`resumeAfterSol` → `runPass`), where it is silent -/
+theorem broadcast_headerError_solWait_step (env : OEnv) (s : OState) (src dst : Nat) (data : List Nat)
+    (m : Nat) (series : Series) (deadline : Nat) (cont : SolCont)
+    (hmode : s.mode = .solWait series deadline cont)
+    (hacc : RxAccepted env src dst data (some m))
+    (hsrc : s.cfg.anymaster = true ∨ src = s.cfg.master)
+    (hp : HeaderBad data) :
+    Outstation.step env s (.rx src dst data) =
+      finishStep (settle 8 (abortSeries
+        (onLinkActivity (rxState s src (some m) data), [.cb .solNewRequest]) cont)) := by
+  rw [step_rx_accepted env s src dst data (some m) (by simp [hmode]) hacc,
+    dispatch_solWait_rx s src (some m) data series deadline cont hmode,
+    (solWaitOnFragment_headerBad_aborts (rxState s src (some m) data, []) series deadline cont
+      ⟨s.frameId, src, some m, data⟩ rfl hsrc hp).1]
+  rfl
+
+/-- step level, unsolicited confirm wait: the UNICAST fragment of an accepted master whose header
+    does not parse as a request is answered; the step's only output is the transmission to `src` -/
 theorem header_error_answered_unsolWait_step (env : OEnv) (s : OState) (src dst : Nat) (data : List Nat)
-    (b : Option Nat) (resp : Resp) (isNull : Bool) (retries : Option Nat) (deadline : Nat)
+    (resp : Resp) (isNull : Bool) (retries : Option Nat) (deadline : Nat)
     (seq : Nat) (s' : OState) (i1 i2 : Nat)
     (hmode : s.mode = .unsolWait resp isNull retries deadline)
-    (hacc : RxAccepted env src dst data b)
+    (hacc : RxAccepted env src dst data none)
+    (hsrc : s.cfg.anymaster = true ∨ src = s.cfg.master)
     (hp : parseRequest data = .headerError seq)
     (hiin : getResponseIin { s with frameId := (s.frameId + 1) % 4294967296, pending := none, deferred := none }
       = some (s', i1, i2)) :
     Outstation.step env s (.rx src dst data) =
       ({ s' with solBuf := writeAt s'.solBuf 0 (errorBytes seq (decide (s'.lastBroadcast = some 1)) i1 i2) },
        [.tx src (errorBytes seq (decide (s'.lastBroadcast = some 1)) i1 i2)]) := by
-  rw [step_rx_accepted env s src dst data b (by simp [hmode]) hacc,
-    dispatch_unsolWait_rx s src b data resp isNull retries deadline hmode,
-    unsolWaitOnFragment_headerError_answered (rxState s src b data, []) resp isNull
-      ⟨s.frameId, src, b, data⟩ seq s' i1 i2 rfl hp hiin]
+  rw [step_rx_accepted env s src dst data none (by simp [hmode]) hacc,
+    dispatch_unsolWait_rx s src none data resp isNull retries deadline hmode,
+    unsolWaitOnFragment_headerError_answered (rxState s src none data, []) resp isNull
+      ⟨s.frameId, src, none, data⟩ seq s' i1 i2 rfl hsrc rfl hp hiin]
   rw [settle_blocked_no_pending]
   · rfl
   · rcases getResponseIin_state _ _ _ _ hiin with h | h <;> rw [h]
 
-/-- D6, step level, idle: the error response to `src` is the first output of the step's pass -/
+/-- step level, idle: the error response to `src` is the first output of the step's pass -/
 theorem header_error_answered_idle_step (env : OEnv) (s : OState) (src dst : Nat) (data : List Nat)
-    (b : Option Nat) (next : NextIdle) (seq : Nat) (s' : OState) (i1 i2 : Nat)
+    (next : NextIdle) (seq : Nat) (s' : OState) (i1 i2 : Nat)
     (hmode : s.mode = .idle next)
-    (hacc : RxAccepted env src dst data b)
+    (hacc : RxAccepted env src dst data none)
+    (hsrc : s.cfg.anymaster = true ∨ src = s.cfg.master)
     (hp : parseRequest data = .headerError seq)
     (hiin : getResponseIin (onLinkActivity
         { s with frameId := (s.frameId + 1) % 4294967296, pending := none, notified := false })
@@ -1073,35 +1263,42 @@ theorem header_error_answered_idle_step (env : OEnv) (s : OState) (src dst : Nat
       finishStep (settle 8 (afterRequest (runPass (passFuel - 1))
         ({ s' with solBuf := writeAt s'.solBuf 0 (errorBytes seq (decide (s'.lastBroadcast = some 1)) i1 i2) },
          [.tx src (errorBytes seq (decide (s'.lastBroadcast = some 1)) i1 i2)]))) := by
-  rw [step_rx_accepted env s src dst data b (by simp [hmode]) hacc,
-    dispatch_idle_rx s src b data next hmode,
-    runPass_headerError_answered (rxState s src b data) [] 63 ⟨s.frameId, src, b, data⟩ seq s' i1 i2 rfl hp hiin]
+  rw [step_rx_accepted env s src dst data none (by simp [hmode]) hacc,
+    dispatch_idle_rx s src none data next hmode,
+    runPass_headerError_answered (rxState s src none data) [] 63 ⟨s.frameId, src, none, data⟩ seq s' i1 i2
+      rfl hsrc rfl hp hiin]
   rfl
 
-/-- D6, step level, solicited confirm wait -/
+/-- step level, solicited confirm wait: the header-error fragment of an accepted master (unicast or
+    broadcast) aborts the series (a foreign master's does not: `foreign_master_silent_solWait`) -/
 theorem header_error_aborts_solWait_step (env : OEnv) (s : OState) (src dst : Nat) (data : List Nat)
     (b : Option Nat) (series : Series) (deadline : Nat) (cont : SolCont) (seq : Nat)
     (hmode : s.mode = .solWait series deadline cont)
     (hacc : RxAccepted env src dst data b)
+    (hsrc : s.cfg.anymaster = true ∨ src = s.cfg.master)
     (hp : parseRequest data = .headerError seq) :
     Outstation.step env s (.rx src dst data) =
       finishStep (settle 8 (abortSeries (onLinkActivity (rxState s src b data), [.cb .solNewRequest]) cont)) := by
   rw [step_rx_accepted env s src dst data b (by simp [hmode]) hacc,
     dispatch_solWait_rx s src b data series deadline cont hmode,
     solWaitOnFragment_headerError_aborts (rxState s src b data, []) series deadline cont
-      ⟨s.frameId, src, b, data⟩ seq rfl hp]
+      ⟨s.frameId, src, b, data⟩ seq rfl hsrc hp]
   rfl
 
 /-- hypotheses of the step-level theorems are satisfiable: broadcast WRITE to 0xFFFF from master 1;
-    header-error fragment from master 99 to 0xFFFF -/
+    header-error fragment from master 1 to 0xFFFF; header-error fragment from master 1 to the outstation -/
 example : RxAccepted {} 1 0xFFFF [0xC3, 2, 80, 1, 0, 7, 7, 0] (some 0) ∧
     (s0.cfg.anymaster = true ∨ 1 = s0.cfg.master) ∧
     (∃ ctrl objects raw, parseRequest [0xC3, 2, 80, 1, 0, 7, 7, 0] = .request ctrl 2 objects raw) :=
   ⟨⟨rfl, by decide, by decide, by decide, by decide⟩, Or.inr rfl, _, _, _, rfl⟩
-example : RxAccepted {} 99 0xFFFF [0xC3, 70] (some 0) ∧ parseRequest [0xC3, 70] = .headerError 3 ∧
+example : RxAccepted {} 1 0xFFFF [0xC3, 70] (some 0) ∧ (s0.cfg.anymaster = true ∨ 1 = s0.cfg.master) ∧
+    HeaderBad [0xC3, 70] :=
+  ⟨⟨rfl, by decide, by decide, by decide, by decide⟩, Or.inr rfl, .inr ⟨3, rfl⟩⟩
+example : RxAccepted {} 1 1024 [0xC3, 70] none ∧ (s0.cfg.anymaster = true ∨ 1 = s0.cfg.master) ∧
+    parseRequest [0xC3, 70] = .headerError 3 ∧
     (getResponseIin (onLinkActivity
       { s0 with frameId := (s0.frameId + 1) % 4294967296, pending := none, notified := false })).isSome = true :=
-  ⟨⟨rfl, by decide, by decide, by decide, by decide⟩, rfl, rfl⟩
+  ⟨⟨rfl, by decide, by decide, by decide, by decide⟩, Or.inr rfl, rfl, rfl⟩
 
 /-! ## 6. outputs only grow -/
 
@@ -1136,16 +1333,18 @@ theorem pre_writeUnsolicited (a a' : Acc) (r r' : Resp) (h : writeUnsolicited a 
     obtain ⟨rfl, -⟩ := h
     exact List.prefix_append _ _
 
-theorem pre_writeErrorResponse (a a' : Acc) (dst : Nat) (seq : Option Nat)
-    (h : writeErrorResponse a dst seq = some a') : a.2 <+: a'.2 := by
+theorem pre_writeErrorResponse (a a' : Acc) (dst : Nat) (bc : Bool) (seq : Option Nat)
+    (h : writeErrorResponse a dst bc seq = some a') : a.2 <+: a'.2 := by
   unfold writeErrorResponse at h
   split at h
   · cases h; exact List.prefix_refl _
   · split at h
-    · simp at h
-    · rename_i heq
-      cases h
-      exact pre_writeSolicited _ _ _ _ _ heq
+    · cases h; exact List.prefix_refl _
+    · split at h
+      · simp at h
+      · rename_i heq
+        cases h
+        exact pre_writeSolicited _ _ _ _ _ heq
 
 theorem pre_ctl (kind : Option CtlKind) (fs : Nat) (maxctl : Option Nat) (hs : List ObjHdr) (a : Acc) (cap : Nat) :
     a.2 <+: (ctlFinish (ctlAll kind fs maxctl hs { acc := a, cap := cap })).acc.2 :=
@@ -1217,23 +1416,26 @@ theorem pre_handleRequestFromIdle (a a' : Acc) (f : Frag) (ctrl : AppCtrl) (func
   unfold handleRequestFromIdle at h
   simp only at h
   -- the first stage
-  have stage1 : ∀ q : Acc × Option LastReq,
+  have stage1 : ∀ q : Acc × Option (LastReq × Bool),
       (match classify a.1 f ctrl func objects with
-        | .malformed e => some (a, some ⟨ctrl.seq, f.data, some (emptySolicited ctrl.seq e), none⟩)
+        | .malformed e => some (a, some (⟨ctrl.seq, f.data, some (emptySolicited ctrl.seq e), none⟩, false))
         | .newRead hs | .repeatRead _ hs =>
           let (db, iin2) := dbSelectAll a.1.db hs
           let (s, r, series) := formatReadResponse { a.1 with db := db } true ctrl.seq iin2
-          some ((s, a.2), some ⟨ctrl.seq, f.data, some r, series⟩)
+          some ((s, a.2), some (⟨ctrl.seq, f.data, some r, series⟩, false))
         | .newNonRead hs =>
           match handleNonRead a func ctrl.seq f.id hs raw with
           | none => none
-          | some (a, r) => some (a, some ⟨ctrl.seq, f.data, r, none⟩)
+          | some (a, r) => some (a, some (⟨ctrl.seq, f.data, r, none⟩, false))
         | .repeatNonRead last =>
           let s := a.1
           let s := match s.select with
-            | some sel => { s with select := some { sel with frameId := f.id } }
+            | some sel =>
+              if func = 3 ∧ sel.seq = ctrl.seq ∧ (sel.frameId + 1) % 4294967296 = f.id ∧ sel.objects = raw then
+                { s with select := some { sel with frameId := f.id } }
+              else s
             | none => s
-          some ((s, a.2), some ⟨ctrl.seq, f.data, last, none⟩)
+          some ((s, a.2), some (⟨ctrl.seq, f.data, last, s.lastReq.bind (·.series)⟩, true))
         | .broadcast mode =>
           match processBroadcast a f mode ctrl func objects raw with
           | none => none
@@ -1255,16 +1457,18 @@ theorem pre_handleRequestFromIdle (a a' : Acc) (f : Frag) (ctrl : AppCtrl) (func
   · rename_i heq
     cases h
     exact stage1 _ heq
-  · rename_i a1 lr heq
+  · rename_i a1 lr echo heq
     have h1 : a.2 <+: a1.2 := stage1 _ heq
     split at h
     · cases h; exact h1
     · split at h
-      · simp at h
-      · rename_i hw
-        cases h
-        have h2 := pre_writeSolicited _ _ _ _ _ hw
-        exact h1.trans h2
+      · cases h; exact h1.trans (pre_repeatSolicited _ _ _)
+      · split at h
+        · simp at h
+        · rename_i hw
+          cases h
+          have h2 := pre_writeSolicited _ _ _ _ _ hw
+          exact h1.trans h2
 
 /-- the outputs accumulated in `a` are a prefix of the outputs of the result -/
 def PreR (a : Acc) (r : StepRes) : Prop := a.2 <+: (finishStep r).2
@@ -1379,7 +1583,7 @@ theorem preR_runPass (fuel : Nat) (a : Acc) : PreR a (runPass fuel a) := by
     · split
       · exact PreR.die (List.prefix_refl _)
       · rename_i h
-        have h2 := pre_writeErrorResponse _ _ _ _ h
+        have h2 := pre_writeErrorResponse _ _ _ _ _ h
         exact PreR.of_pre' (preR_afterRequest _ ih _) h2
     · split
       · exact PreR.die (List.prefix_refl _)
@@ -1459,7 +1663,7 @@ theorem preR_unsolWaitOnFragment (a : Acc) (resp : Resp) (isNull : Bool) :
   · split
     · exact PreR.die (List.prefix_refl _)
     · rename_i hw
-      have h2 := pre_writeErrorResponse _ _ _ _ hw
+      have h2 := pre_writeErrorResponse _ _ _ _ _ hw
       exact PreR.blocked h2
   · split
     · -- unsolConfirm
@@ -1533,51 +1737,55 @@ theorem pre_settle (n : Nat) (r : StepRes) : (finishStep r).2 <+: (finishStep (s
 theorem preR_settle {a : Acc} {r : StepRes} (n : Nat) (h : PreR a r) : PreR a (settle n r) :=
   List.IsPrefix.trans h (pre_settle n r)
 
-/-- `foreign_master_error_answered` (D6 as a universally quantified theorem, idle mode): for EVERY idle
-    state, an accepted fragment from ANY source whose header does not parse as a request makes the step
-    start its output with a response transmitted to that source, carrying IIN2.0, provided only that the
-    database does not panic (`getResponseIin` answers) -/
+/-- `rejection_answered` (idle mode, universally quantified): for EVERY idle state, an accepted UNICAST
+    fragment of an accepted master whose header does not parse as a request makes the step start its
+    output with a response transmitted to that master, carrying IIN2.0, provided only that the
+    database does not panic (`getResponseIin` answers).  (Before the repair of D6 this held for ANY
+    source and for broadcasts too.) -/
 theorem header_error_answered_idle_step_outputs (env : OEnv) (s : OState) (src dst : Nat) (data : List Nat)
-    (b : Option Nat) (next : NextIdle) (seq : Nat) (s' : OState) (i1 i2 : Nat)
+    (next : NextIdle) (seq : Nat) (s' : OState) (i1 i2 : Nat)
     (hmode : s.mode = .idle next)
-    (hacc : RxAccepted env src dst data b)
+    (hacc : RxAccepted env src dst data none)
+    (hsrc : s.cfg.anymaster = true ∨ src = s.cfg.master)
     (hp : parseRequest data = .headerError seq)
     (hiin : getResponseIin (onLinkActivity
         { s with frameId := (s.frameId + 1) % 4294967296, pending := none, notified := false })
       = some (s', i1, i2)) :
     ∃ rest, (Outstation.step env s (.rx src dst data)).2 =
       .tx src (errorBytes seq (decide (s'.lastBroadcast = some 1)) i1 i2) :: rest := by
-  rw [header_error_answered_idle_step env s src dst data b next seq s' i1 i2 hmode hacc hp hiin]
+  rw [header_error_answered_idle_step env s src dst data next seq s' i1 i2 hmode hacc hsrc hp hiin]
   have h := preR_settle 8 (preR_afterRequest (runPass (passFuel - 1)) (preR_runPass _)
     ({ s' with solBuf := writeAt s'.solBuf 0 (errorBytes seq (decide (s'.lastBroadcast = some 1)) i1 i2) },
      [.tx src (errorBytes seq (decide (s'.lastBroadcast = some 1)) i1 i2)]))
   obtain ⟨rest, hrest⟩ := h
   exact ⟨rest, hrest.symm⟩
 
-/-- in particular something IS transmitted to the foreign source -/
+/-- in particular the error response IS among the step's transmissions -/
 theorem header_error_answered_idle_step_txFrags (env : OEnv) (s : OState) (src dst : Nat) (data : List Nat)
-    (b : Option Nat) (next : NextIdle) (seq : Nat) (s' : OState) (i1 i2 : Nat)
+    (next : NextIdle) (seq : Nat) (s' : OState) (i1 i2 : Nat)
     (hmode : s.mode = .idle next)
-    (hacc : RxAccepted env src dst data b)
+    (hacc : RxAccepted env src dst data none)
+    (hsrc : s.cfg.anymaster = true ∨ src = s.cfg.master)
     (hp : parseRequest data = .headerError seq)
     (hiin : getResponseIin (onLinkActivity
         { s with frameId := (s.frameId + 1) % 4294967296, pending := none, notified := false })
       = some (s', i1, i2)) :
     (src, errorBytes seq (decide (s'.lastBroadcast = some 1)) i1 i2) ∈
       txFrags (Outstation.step env s (.rx src dst data)).2 := by
-  obtain ⟨rest, h⟩ := header_error_answered_idle_step_outputs env s src dst data b next seq s' i1 i2 hmode hacc hp hiin
+  obtain ⟨rest, h⟩ := header_error_answered_idle_step_outputs env s src dst data next seq s' i1 i2 hmode hacc hsrc hp hiin
   rw [h]
   simp [txFrags]
 
-/-- D6 in the solicited confirm wait, output form: the step's output starts with the
-    `solNewRequest` callback (the response series is aborted by a fragment from any source) -/
+/-- solicited confirm wait, output form: the step's output starts with the `solNewRequest` callback
+    (the response series is aborted by a header-error fragment of an accepted master) -/
 theorem header_error_aborts_solWait_step_outputs (env : OEnv) (s : OState) (src dst : Nat) (data : List Nat)
     (b : Option Nat) (series : Series) (deadline : Nat) (cont : SolCont) (seq : Nat)
     (hmode : s.mode = .solWait series deadline cont)
     (hacc : RxAccepted env src dst data b)
+    (hsrc : s.cfg.anymaster = true ∨ src = s.cfg.master)
     (hp : parseRequest data = .headerError seq) :
     ∃ rest, (Outstation.step env s (.rx src dst data)).2 = .cb .solNewRequest :: rest := by
-  rw [header_error_aborts_solWait_step env s src dst data b series deadline cont seq hmode hacc hp]
+  rw [header_error_aborts_solWait_step env s src dst data b series deadline cont seq hmode hacc hsrc hp]
   obtain ⟨rest, hrest⟩ := preR_settle 8 (preR_abortSeries
     (onLinkActivity (rxState s src b data), [.cb .solNewRequest]) cont)
   exact ⟨rest, hrest.symm⟩
@@ -1600,6 +1808,423 @@ theorem broadcast_silent_idle_step_outputs (env : OEnv) (s : OState) (src dst : 
   obtain ⟨rest, hrest⟩ := preR_settle 8 (preR_afterRequest (runPass (passFuel - 1)) (preR_runPass _)
     (s', l ++ [.cb (.broadcast func action)]))
   exact ⟨l, action, rest, h2, hrest.symm⟩
+
+/-! ## 7. `broadcast_never_answered`: in every mode, whatever the octets of the broadcast fragment
+
+The step-level theorems of parts 3 and 5 say what the handling of the fragment itself contributes
+(callbacks only / nothing) and that the idle pass then continues.  Here the WHOLE step is covered: an
+invariant of the idle pass (`PassInv`: no READ deferred, the reader empty or holding a broadcast
+fragment other than a CONFIRM) shows that whatever the pass goes on to do - unsolicited responses,
+link status requests, handing the fragment retained by `Confirm::NewRequest` to the unsolicited
+confirm wait - it never writes a solicited response. -/
+
+/-- an application-layer transmission carrying a SOLICITED response (function octet 0x81) -/
+def IsSolTx (o : OOut) : Prop := ∃ d b, o = .tx d b ∧ b[1]? = some 0x81
+
+/-- no output in the list is a solicited response -/
+def NoSol (l : List OOut) : Prop := ∀ o ∈ l, ¬ IsSolTx o
+
+theorem NoSol.nil : NoSol [] := by simp [NoSol]
+
+theorem NoSol.append {l l' : List OOut} (h : NoSol l) (h' : NoSol l') : NoSol (l ++ l') := by
+  intro o ho
+  rcases List.mem_append.1 ho with h1 | h1
+  · exact h o h1
+  · exact h' o h1
+
+theorem NoSol.of_onlyCb {l : List OOut} (h : OnlyCb l) : NoSol l := by
+  rintro o ho ⟨d, b, e, -⟩
+  obtain ⟨c, rfl⟩ := h o ho
+  cases e
+
+theorem NoSol.cb (c : Cb) : NoSol [.cb c] := by
+  rintro o ho ⟨d, b, e, -⟩
+  rw [List.mem_singleton.1 ho] at e; cases e
+
+theorem NoSol.panic : NoSol [.panic] := by
+  rintro o ho ⟨d, b, e, -⟩
+  rw [List.mem_singleton.1 ho] at e; cases e
+
+theorem NoSol.txLink (c d s : Nat) : NoSol [.txLink c d s] := by
+  rintro o ho ⟨d, b, e, -⟩
+  rw [List.mem_singleton.1 ho] at e; cases e
+
+/-- `outs'` extends `outs` by outputs none of which is a solicited response -/
+def Ext (outs outs' : List OOut) : Prop := ∃ l, outs' = outs ++ l ∧ NoSol l
+
+theorem Ext.refl (l : List OOut) : Ext l l := ⟨[], by simp, NoSol.nil⟩
+
+theorem Ext.trans {a b c : List OOut} (h1 : Ext a b) (h2 : Ext b c) : Ext a c := by
+  obtain ⟨l1, rfl, n1⟩ := h1
+  obtain ⟨l2, rfl, n2⟩ := h2
+  exact ⟨l1 ++ l2, by rw [List.append_assoc], n1.append n2⟩
+
+theorem Ext.of_quiet {a a' : Acc} (h : Quiet a a') : Ext a.2 a'.2 := by
+  obtain ⟨-, l, h2, h3⟩ := h
+  exact ⟨l, h2, NoSol.of_onlyCb h3⟩
+
+theorem Ext.emitCb (a : Acc) (c : Cb) : Ext a.2 (emitCb a c).2 := ⟨[.cb c], rfl, NoSol.cb c⟩
+
+/-- the second octet of what `repeat_unsolicited` transmits is the function code of the response -/
+theorem repeatUnsolicited_out (a : Acc) (r : Resp) :
+    ∃ bytes, (repeatUnsolicited a r).2 = a.2 ++ [.tx a.1.cfg.master bytes] ∧ bytes[1]? = some r.func := by
+  refine ⟨_, rfl, ?_⟩
+  simp only [writeAt, respHeader, List.take_zero, List.nil_append, List.length_cons, List.length_nil,
+    List.cons_append, List.getElem?_take]
+  have : 1 < max 4 r.size := by omega
+  simp [this]
+
+theorem getResponseIin_fields (s s' : OState) (i1 i2 : Nat) (h : getResponseIin s = some (s', i1, i2)) :
+    s'.pending = s.pending ∧ s'.deferred = s.deferred ∧ s'.mode = s.mode ∧ s'.cfg = s.cfg := by
+  rcases getResponseIin_state s s' i1 i2 h with e | e <;> rw [e] <;> exact ⟨rfl, rfl, rfl, rfl⟩
+
+/-- starting an unsolicited series transmits an unsolicited response (no solicited one) and enters
+    the unsolicited confirm wait; reader and deferred READ are untouched -/
+theorem startUnsolSeries_inv (a a' : Acc) (r : Resp) (isNull : Bool) (hr : r.func = 0x82)
+    (h : startUnsolSeries a r isNull = some a') :
+    Ext a.2 a'.2 ∧ a'.1.pending = a.1.pending ∧ a'.1.deferred = a.1.deferred ∧
+    ∃ r' n t d, a'.1.mode = .unsolWait r' n t d := by
+  unfold startUnsolSeries writeUnsolicited at h
+  cases hg : getResponseIin a.1 with
+  | none => simp [hg] at h
+  | some t =>
+    obtain ⟨s', i1, i2⟩ := t
+    obtain ⟨hp, hd, -, hc⟩ := getResponseIin_fields a.1 s' i1 i2 hg
+    simp only [hg, Option.some.injEq] at h
+    subst h
+    obtain ⟨bytes, ho, hb⟩ := repeatUnsolicited_out (s', a.2) { r with iin1 := r.iin1 ||| i1, iin2 := r.iin2 ||| i2 }
+    refine ⟨⟨[.tx s'.cfg.master bytes, .cb (.unsolWait r.ctrl.seq)], ?_, ?_⟩, hp, hd, _, _, _, _, rfl⟩
+    · show (emitCb (repeatUnsolicited _ _) _).2 = _
+      simp only [emitCb, emit, ho, List.append_assoc, List.cons_append, List.nil_append]
+    · rintro o ho ⟨d, b, e, hb'⟩
+      simp only [List.mem_cons, List.not_mem_nil, or_false] at ho
+      rcases ho with rfl | rfl
+      · cases e
+        rw [hb, hr] at hb'
+        simp at hb'
+      · cases e
+
+theorem unsolHeader_func (seq size : Nat) : (unsolHeader seq size).func = 0x82 := rfl
+
+/-- `check_unsolicited` never transmits a solicited response, leaves reader and deferred READ alone,
+    and if it blocks, it does so in the unsolicited confirm wait -/
+theorem checkUnsolicited_inv (a : Acc) (x : Acc ⊕ (Acc × NextIdle)) (h : checkUnsolicited a = some x) :
+    match x with
+    | .inl b => Ext a.2 b.2 ∧ b.1.pending = a.1.pending ∧ b.1.deferred = a.1.deferred ∧
+        ∃ r' n t d, b.1.mode = .unsolWait r' n t d
+    | .inr (b, _) => Ext a.2 b.2 ∧ b.1.pending = a.1.pending ∧ b.1.deferred = a.1.deferred := by
+  unfold checkUnsolicited at h
+  simp only at h
+  repeat' split at h
+  all_goals first
+    | (simp at h; done)
+    | (cases h; exact ⟨Ext.refl _, rfl, rfl⟩)
+    | (rename_i hs; cases h; have h2 := startUnsolSeries_inv _ _ _ _ (unsolHeader_func _ _) hs; exact h2)
+
+/-- a broadcast fragment that is not a CONFIRM (function code 0) -/
+def BFrag (f : Frag) : Prop :=
+  f.broadcast.isSome = true ∧ ∀ ctrl objects raw, parseRequest f.data ≠ .request ctrl 0 objects raw
+
+/-- no READ is deferred, and if a fragment is in the reader it is a broadcast other than a CONFIRM -/
+def PassInv (s : OState) : Prop := s.deferred = none ∧ ∀ f, s.pending = some f → BFrag f
+
+def NotSolWait (m : Mode) : Prop := ∀ se d c, m ≠ .solWait se d c
+
+/-- `settle` will not hand a fragment to the solicited confirm wait -/
+def Settles (s : OState) : Prop :=
+  s.pending = none ∨ (NotSolWait s.mode ∧ ∀ f, s.pending = some f → BFrag f)
+
+/-- the result extends `outs` without a solicited response and blocks in a state satisfying `Settles` -/
+def Res (outs : List OOut) (r : StepRes) : Prop :=
+  match r with
+  | .panicked b => Ext outs b.2
+  | .blocked b => Ext outs b.2 ∧ Settles b.1
+
+theorem Res.of_ext {o o' : List OOut} {r : StepRes} (h : Ext o o') (hr : Res o' r) : Res o r := by
+  cases r with
+  | panicked b => exact h.trans hr
+  | blocked b => exact ⟨h.trans hr.1, hr.2⟩
+
+theorem Res.die (a : Acc) : Res a.2 (die a) := ⟨[.panic], rfl, NoSol.panic⟩
+
+theorem finishPass_inv (a : Acc) (next : NextIdle) :
+    Ext a.2 (finishPass a next).2 ∧ (finishPass a next).1.pending = a.1.pending ∧
+    (finishPass a next).1.deferred = a.1.deferred ∧ ∃ n, (finishPass a next).1.mode = .idle n := by
+  unfold finishPass
+  simp only
+  repeat' split
+  all_goals first
+    | exact ⟨Ext.refl _, rfl, rfl, _, rfl⟩
+    | exact ⟨⟨_, rfl, NoSol.txLink _ _ _⟩, rfl, rfl, _, rfl⟩
+
+theorem notSolWait_idle {m : Mode} (h : ∃ n, m = .idle n) : NotSolWait m := by
+  obtain ⟨n, rfl⟩ := h
+  intro se d c e; cases e
+
+theorem notSolWait_unsolWait {m : Mode} (h : ∃ r n t d, m = .unsolWait r n t d) : NotSolWait m := by
+  obtain ⟨r, n, t, d, rfl⟩ := h
+  intro se d c e; cases e
+
+theorem res_afterDeferred (k : Acc → StepRes)
+    (hk : ∀ a, PassInv a.1 → (∃ n, a.1.mode = .idle n) → Res a.2 (k a))
+    (a : Acc) (next : NextIdle) (hi : PassInv a.1) : Res a.2 (afterDeferred k a next) := by
+  obtain ⟨h1, h2, h3, h4⟩ := finishPass_inv a next
+  have hi' : PassInv (finishPass a next).1 := ⟨h3.trans hi.1, fun f hf => hi.2 f (h2 ▸ hf)⟩
+  unfold afterDeferred
+  simp only
+  split
+  · exact Res.of_ext h1 (hk _ hi' h4)
+  · exact ⟨h1, .inr ⟨notSolWait_idle h4, hi'.2⟩⟩
+
+theorem res_afterUnsol (k : Acc → StepRes)
+    (hk : ∀ a, PassInv a.1 → (∃ n, a.1.mode = .idle n) → Res a.2 (k a))
+    (a : Acc) (next : NextIdle) (hi : PassInv a.1) : Res a.2 (afterUnsol k a next) := by
+  have h : handleDeferredRead a next = some (.inr a) := by simp [handleDeferredRead, hi.1]
+  simp only [afterUnsol, h]
+  exact res_afterDeferred k hk a next hi
+
+theorem res_afterRequest (k : Acc → StepRes)
+    (hk : ∀ a, PassInv a.1 → (∃ n, a.1.mode = .idle n) → Res a.2 (k a))
+    (a : Acc) (hi : PassInv a.1) : Res a.2 (afterRequest k a) := by
+  unfold afterRequest
+  split
+  · exact Res.die a
+  · rename_i b h
+    obtain ⟨h1, h2, -, h4⟩ := checkUnsolicited_inv a _ h
+    exact ⟨h1, .inr ⟨notSolWait_unsolWait h4, fun f hf => hi.2 f (h2 ▸ hf)⟩⟩
+  · rename_i b next h
+    obtain ⟨h1, h2, h3⟩ := checkUnsolicited_inv a _ h
+    exact Res.of_ext h1 (res_afterUnsol k hk b next ⟨h3.trans hi.1, fun f hf => hi.2 f (h2 ▸ hf)⟩)
+
+/-- accepted or foreign: the two cases of the master-address filter -/
+theorem accepted_or_foreign (s : OState) (src : Nat) :
+    (s.cfg.anymaster = true ∨ src = s.cfg.master) ∨ (s.cfg.anymaster = false ∧ src ≠ s.cfg.master) := by
+  cases h : s.cfg.anymaster
+  · by_cases h2 : src = s.cfg.master
+    · exact .inl (.inr h2)
+    · exact .inr ⟨rfl, h2⟩
+  · exact .inl (.inl rfl)
+
+/-- `runPass_broadcast` with the facts the pass invariant needs -/
+theorem runPass_broadcast_inv (s : OState) (outs : List OOut) (fuel : Nat) (f : Frag) (ctrl : AppCtrl) (func : Nat)
+    (objects : Except Nat (List ObjHdr)) (raw : List Nat) (m : Nat)
+    (hpend : s.pending = some f) (hp : parseRequest f.data = .request ctrl func objects raw)
+    (hsrc : s.cfg.anymaster = true ∨ f.src = s.cfg.master)
+    (hb : f.broadcast = some m) (hf : func ≠ 0) :
+    ∃ a', runPass (fuel + 1) (s, outs) = afterRequest (runPass fuel) a' ∧
+      Ext outs a'.2 ∧ a'.1.pending = none ∧ a'.1.deferred = s.deferred := by
+  obtain ⟨a', h⟩ := processBroadcast_isSome
+    (onLinkActivity { s with notified := false, pending := none }, outs) f m ctrl func objects raw
+  obtain ⟨-, ⟨hp1, -, -, hp4⟩, l, action, h2, h3⟩ := processBroadcast_silent _ f m ctrl func objects raw a' h
+  refine ⟨a', ?_, ⟨l ++ [.cb (.broadcast func action)], by rw [h2, List.append_assoc],
+    (NoSol.of_onlyCb h3).append (NoSol.cb _)⟩, hp1, hp4⟩
+  have hpop := popRequest_accepted { s with notified := false } f ctrl func objects raw hpend hp hsrc
+  simp only [runPass, hpop, handleRequestFromIdle_broadcast_eq _ f ctrl func objects raw m hb hf, h, Option.map_some]
+
+theorem res_runPass (fuel : Nat) (a : Acc) (hi : PassInv a.1) (hm : ∃ n, a.1.mode = .idle n) :
+    Res a.2 (runPass fuel a) := by
+  induction fuel generalizing a with
+  | zero => exact ⟨Ext.emitCb a _, .inr ⟨notSolWait_idle hm, hi.2⟩⟩
+  | succ n ih =>
+    obtain ⟨s, outs⟩ := a
+    have hnone : Res outs (afterRequest (runPass n) ({ s with notified := false, pending := none }, outs)) :=
+      res_afterRequest _ ih _ ⟨hi.1, fun f hf => by cases hf⟩
+    cases hpend : s.pending with
+    | none => rw [runPass_no_fragment s outs n hpend]; exact hnone
+    | some f =>
+      obtain ⟨hb, hnc⟩ := hi.2 f hpend
+      rcases accepted_or_foreign s f.src with hsrc | ⟨hany, hsrc⟩
+      · obtain ⟨m, hm'⟩ := Option.isSome_iff_exists.1 hb
+        rcases headerBad_or_request f.data with hbad | ⟨ctrl, func, objects, raw, hp⟩
+        · rw [runPass_broadcast_headerError s outs n f m hpend hsrc hm' hbad]
+          exact res_afterRequest _ ih _ ⟨hi.1, fun f hf => by cases hf⟩
+        · have hf : func ≠ 0 := by rintro rfl; exact hnc _ _ _ hp
+          obtain ⟨a', h0, h1, h2, h3⟩ := runPass_broadcast_inv s outs n f ctrl func objects raw m hpend hp hsrc hm' hf
+          rw [h0]
+          exact Res.of_ext h1 (res_afterRequest _ ih a' ⟨h3.trans hi.1, fun f hf => by rw [h2] at hf; cases hf⟩)
+      · rw [runPass_foreign s outs n f hpend hany hsrc]; exact hnone
+
+/-- unsolicited confirm wait: a broadcast fragment other than a CONFIRM - from anyone, with any
+    octets - is consumed with callbacks at most; the wait goes on -/
+theorem unsolWaitOnFragment_bfrag (a : Acc) (resp : Resp) (isNull : Bool) (f : Frag)
+    (hpend : a.1.pending = some f) (hf : BFrag f) :
+    ∃ b l, unsolWaitOnFragment a resp isNull = .blocked b ∧ b.2 = a.2 ++ l ∧ OnlyCb l ∧ b.1.pending = none := by
+  obtain ⟨hb, hnc⟩ := hf
+  rcases accepted_or_foreign a.1 f.src with hsrc | ⟨hany, hsrc⟩
+  · obtain ⟨m, hm⟩ := Option.isSome_iff_exists.1 hb
+    rcases headerBad_or_request f.data with hbad | ⟨ctrl, func, objects, raw, hp⟩
+    · rw [unsolWaitOnFragment_broadcast_headerError a resp isNull f m hpend hsrc hm hbad]
+      exact ⟨_, [], rfl, by simp, by simp [OnlyCb], rfl⟩
+    · have hf : func ≠ 0 := by rintro rfl; exact hnc _ _ _ hp
+      obtain ⟨a', h0, -, h2, -, ⟨l, action, h4, h5⟩, -⟩ :=
+        unsolWaitOnFragment_broadcast a resp isNull f ctrl func objects raw m hpend hp hsrc hm hf
+      refine ⟨a', l ++ [.cb (.broadcast func action)], h0, by rw [h4, List.append_assoc], ?_, h2⟩
+      intro o ho
+      rcases List.mem_append.1 ho with h | h
+      · exact h5 o h
+      · exact ⟨_, List.mem_singleton.1 h⟩
+  · refine ⟨({ a.1 with pending := none }, a.2), [], ?_, by simp, by simp [OnlyCb], rfl⟩
+    simp only [unsolWaitOnFragment, popRequest_foreign a.1 f hpend hany hsrc]
+
+theorem res_abortSeries (a : Acc) (cont : SolCont) (hi : PassInv a.1) : Res a.2 (abortSeries a cont) := by
+  unfold abortSeries resumeAfterSol
+  cases cont with
+  | fromRequest =>
+    exact res_afterRequest _ (fun a => res_runPass _ a) ({ a.1 with db := a.1.db.reset }, a.2) hi
+  | fromDeferred next =>
+    exact res_afterDeferred _ (fun a => res_runPass _ a) (_, a.2) next ⟨rfl, hi.2⟩
+
+/-- solicited confirm wait: a broadcast fragment other than a CONFIRM is dropped (foreign master) or
+    aborts the series and is then handled by the idle pass; no solicited response results -/
+theorem res_solWaitOnFragment (a : Acc) (series : Series) (deadline : Nat) (cont : SolCont) (f : Frag)
+    (hpend : a.1.pending = some f) (hf : BFrag f) (hd : a.1.deferred = none) :
+    Res a.2 (solWaitOnFragment a series deadline cont) := by
+  have hab : Res a.2 (abortSeries (emitCb (onLinkActivity a.1, a.2) .solNewRequest) cont) :=
+    Res.of_ext (Ext.emitCb (onLinkActivity a.1, a.2) .solNewRequest)
+      (res_abortSeries _ cont ⟨hd, fun g hg => by
+        have : g = f := Option.some.inj (hg.symm.trans hpend)
+        exact this ▸ hf⟩)
+  obtain ⟨hb, hnc⟩ := hf
+  rcases accepted_or_foreign a.1 f.src with hsrc | ⟨hany, hsrc⟩
+  · obtain ⟨m, hm⟩ := Option.isSome_iff_exists.1 hb
+    rcases headerBad_or_request f.data with hbad | ⟨ctrl, func, objects, raw, hp⟩
+    · rw [(solWaitOnFragment_headerBad_aborts a series deadline cont f hpend hsrc hbad).1]; exact hab
+    · have hf : func ≠ 0 := by rintro rfl; exact hnc _ _ _ hp
+      rw [(solWaitOnFragment_broadcast a series deadline cont f ctrl func objects raw m hpend hp hsrc hm hf).1]
+      exact hab
+  · have : solWaitOnFragment a series deadline cont = .blocked ({ a.1 with pending := none }, a.2) := by
+      simp only [solWaitOnFragment, popRequest_foreign a.1 f hpend hany hsrc]
+    rw [this]
+    exact ⟨Ext.refl _, .inl rfl⟩
+
+/-- `settle` keeps it so: a retained broadcast fragment is handed to the unsolicited confirm wait only,
+    which consumes it with callbacks -/
+theorem ext_settle (n : Nat) (outs : List OOut) (r : StepRes) (h : Res outs r) :
+    Ext outs (finishStep (settle n r)).2 := by
+  induction n generalizing r with
+  | zero => cases r with
+    | panicked b => exact h
+    | blocked b => exact h.1
+  | succ n ih =>
+    cases r with
+    | panicked b => exact h
+    | blocked b =>
+      obtain ⟨h1, h2⟩ := h
+      rcases h2 with h2 | ⟨hns, hbf⟩
+      · rw [settle_blocked_no_pending _ _ h2]; exact h1
+      · cases hmode : b.1.mode with
+        | idle nx =>
+          have : settle (n + 1) (.blocked b) = .blocked b := by simp [settle, hmode]
+          rw [this]; exact h1
+        | dead =>
+          have : settle (n + 1) (.blocked b) = .blocked b := by simp [settle, hmode]
+          rw [this]; exact h1
+        | solWait se d c => exact absurd hmode (hns se d c)
+        | unsolWait resp isNull retries deadline =>
+          cases hps : b.1.pending with
+          | none => rw [settle_blocked_no_pending _ _ hps]; exact h1
+          | some f =>
+            have hs : settle (n + 1) (.blocked b) = settle n (unsolWaitOnFragment b resp isNull) := by
+              simp [settle, dispatch, hmode, hps]
+            obtain ⟨b', l, e1, e2, e3, e4⟩ := unsolWaitOnFragment_bfrag b resp isNull f hps (hbf f hps)
+            rw [hs, e1]
+            exact ih _ ⟨h1.trans ⟨l, e2, NoSol.of_onlyCb e3⟩, .inl e4⟩
+
+theorem bfrag_rx (id src m : Nat) (data : List Nat)
+    (hnc : ∀ ctrl objects raw, parseRequest data ≠ .request ctrl 0 objects raw) :
+    BFrag ⟨id, src, some m, data⟩ := ⟨rfl, hnc⟩
+
+/-- step level, unsolicited confirm wait, EVERY accepted broadcast fragment other than a CONFIRM
+    (any source, any octets): the whole step emits application callbacks only -/
+theorem broadcast_unsolWait_onlyCb (env : OEnv) (s : OState) (src dst : Nat) (data : List Nat) (m : Nat)
+    (resp : Resp) (isNull : Bool) (retries : Option Nat) (deadline : Nat)
+    (hmode : s.mode = .unsolWait resp isNull retries deadline)
+    (hacc : RxAccepted env src dst data (some m))
+    (hnc : ∀ ctrl objects raw, parseRequest data ≠ .request ctrl 0 objects raw) :
+    OnlyCb (Outstation.step env s (.rx src dst data)).2 ∧
+      txFrags (Outstation.step env s (.rx src dst data)).2 = [] := by
+  rw [step_rx_accepted env s src dst data (some m) (by simp [hmode]) hacc,
+    dispatch_unsolWait_rx s src (some m) data resp isNull retries deadline hmode]
+  obtain ⟨b', l, e1, e2, e3, e4⟩ := unsolWaitOnFragment_bfrag (rxState s src (some m) data, []) resp isNull
+    ⟨s.frameId, src, some m, data⟩ rfl (bfrag_rx _ _ _ _ hnc)
+  rw [e1, settle_blocked_no_pending 8 b' e4]
+  simp only [List.nil_append] at e2
+  show OnlyCb b'.2 ∧ txFrags b'.2 = []
+  rw [e2]
+  exact ⟨e3, txFrags_onlyCb l e3⟩
+
+/-- MAIN (target 3, all modes, all contents): handling an accepted broadcast fragment never results in
+    a solicited response.  For EVERY state and EVERY accepted fragment addressed to a broadcast
+    address (any source - accepted or foreign master -, any octets: a well-formed request, a header-level
+    error, a single octet) other than a CONFIRM (function code 0, which is not treated as a broadcast:
+    `broadcast_confirm_idle_ignored`, `broadcast_confirm_solWait_accepted`), none of the outputs of
+    the whole step - the handling of the fragment, the abort of a solicited confirm wait, the rest
+    of the idle pass, the hand-over of the retained fragment to a following confirm wait (`settle`) -
+    is a transmission with the function octet 0x81.  (What the step may transmit: unsolicited
+    responses, function octet 0x82, of the pass that follows, and link status requests.)
+    Hypothesis `hdef`: no READ is deferred - otherwise ITS response is written by the pass - unless the
+    outstation is in the unsolicited confirm wait, where the broadcast drops the deferred READ. -/
+theorem broadcast_never_answered (env : OEnv) (s : OState) (src dst : Nat) (data : List Nat) (m : Nat)
+    (hacc : RxAccepted env src dst data (some m))
+    (hnc : ∀ ctrl objects raw, parseRequest data ≠ .request ctrl 0 objects raw)
+    (hdef : s.deferred = none ∨ ∃ resp isNull retries deadline, s.mode = .unsolWait resp isNull retries deadline) :
+    NoSol (Outstation.step env s (.rx src dst data)).2 := by
+  have hbf : BFrag ⟨s.frameId, src, some m, data⟩ := bfrag_rx _ _ _ _ hnc
+  have fin : ∀ r, Res [] r → NoSol (finishStep (settle 8 r)).2 := by
+    intro r hr
+    obtain ⟨l, e, hl⟩ := ext_settle 8 [] r hr
+    rw [e]; exact hl
+  cases hmode : s.mode with
+  | dead => rw [rx_dead_silent env s _ _ _ hmode]; exact NoSol.nil
+  | unsolWait resp isNull retries deadline =>
+    exact NoSol.of_onlyCb
+      (broadcast_unsolWait_onlyCb env s src dst data m resp isNull retries deadline hmode hacc hnc).1
+  | idle next =>
+    have hd : s.deferred = none := by
+      rcases hdef with h | ⟨_, _, _, _, h⟩
+      · exact h
+      · rw [hmode] at h; cases h
+    rw [step_rx_accepted env s src dst data (some m) (by simp [hmode]) hacc,
+      dispatch_idle_rx s src (some m) data next hmode]
+    refine fin _ (res_runPass _ (rxState s src (some m) data, []) ⟨hd, ?_⟩ ⟨next, hmode⟩)
+    intro f hf
+    cases hf; exact hbf
+  | solWait series deadline cont =>
+    have hd : s.deferred = none := by
+      rcases hdef with h | ⟨_, _, _, _, h⟩
+      · exact h
+      · rw [hmode] at h; cases h
+    rw [step_rx_accepted env s src dst data (some m) (by simp [hmode]) hacc,
+      dispatch_solWait_rx s src (some m) data series deadline cont hmode]
+    exact fin _ (res_solWaitOnFragment (rxState s src (some m) data, []) series deadline cont _ rfl hbf hd)
+
+/-- in terms of `txFrags`: no transmitted application fragment of the step is a solicited response -/
+theorem broadcast_never_answered_txFrags (env : OEnv) (s : OState) (src dst : Nat) (data : List Nat) (m : Nat)
+    (hacc : RxAccepted env src dst data (some m))
+    (hnc : ∀ ctrl objects raw, parseRequest data ≠ .request ctrl 0 objects raw)
+    (hdef : s.deferred = none ∨ ∃ resp isNull retries deadline, s.mode = .unsolWait resp isNull retries deadline) :
+    ∀ p ∈ txFrags (Outstation.step env s (.rx src dst data)).2, p.2[1]? ≠ some 0x81 := by
+  intro p hp hx
+  unfold txFrags at hp
+  obtain ⟨o, ho, he⟩ := List.mem_filterMap.1 hp
+  cases o with
+  | tx d b =>
+    cases he
+    exact broadcast_never_answered env s src dst data m hacc hnc hdef _ ho ⟨d, b, rfl, hx⟩
+  | _ => cases he
+
+/-- `IsSolTx` is what the session's solicited responses look like: e.g. the error response of part 2 -/
+example (dst seq : Nat) (con : Bool) (i1 i2 : Nat) : IsSolTx (.tx dst (errorBytes seq con i1 i2)) :=
+  ⟨_, _, rfl, rfl⟩
+
+/-- the hypotheses hold: idle state after start, fragments `C3 46` / WRITE / one octet to 0xFFFF -/
+example : RxAccepted {} 1 0xFFFF [0xC3, 70] (some 0) ∧
+    (∀ ctrl objects raw, parseRequest [0xC3, 70] ≠ .request ctrl 0 objects raw) ∧
+    (∀ ctrl objects raw, parseRequest [0xC3, 2, 80, 1, 0, 7, 7, 0] ≠ .request ctrl 0 objects raw) ∧
+    (∀ ctrl objects raw, parseRequest [0xC0] ≠ .request ctrl 0 objects raw) ∧
+    (Outstation.start cfg0 0).1.deferred = none :=
+  ⟨⟨rfl, by decide, by decide, by decide, by decide⟩, (by intro _ _ _ h; cases h), (by intro _ _ _ h; cases h),
+    (by intro _ _ _ h; cases h), rfl⟩
 
 /-! ## axioms -/
 
